@@ -1,3 +1,75 @@
+/-
+  "THE EFFECT IS IN PLACE WHEN THE ACKNOWLEDGEMENT IS ANSWERED" at ACTION granularity (CachedModel/LayerB.lean), for every
+  interleaving of any number of clients with the command worker, the sweeper and the access consumer — the clause of
+  C12 "when it resolves as accepted the command's effect is already visible", the clause of C04 "once the
+  acknowledgement completes as accepted the entry is gone and its weight no longer counted; the key can be put again"
+  and the clause of C08 "never silently lost", which were proved at the call-atomic Layer A only (and, for C12, inside
+  the slice `AckB`, where `final` is a free parameter tied to nothing).
+
+  The worker answers a command in the LAST action of the command (`finishCmd`, `C11_layerB_completion_answers`).  Which
+  action that is, and what the shared state looks like in it:
+
+  1  `AckInv` (`ackInv_reach`): between `wu.add` and the answer of a put the worker's locals and the state agree.
+  2  PUT   `PutEffect b c exp` = stored exactly (value, id, deadline `exp`, not soft-deleted) ∧ charged (key, hash, weight)
+           ∧ deadline indexed.
+       `C12_layerB_put_effect_before_ack`          put without time-to-live: the answering action IS `store.put`; in the
+                                                   state it produces `PutEffect` holds, the total includes the weight,
+                                                   nothing else changed                         (every reachable state)
+       `PutEffect.get_returns`                     … so a `get` whose lookup runs there returns `Some(v)`
+       `C12_layerB_put_ttl_effect_before_ack`      put with time-to-live: the answering action is `ttl.put`, one action
+                                                   AFTER `store.put`; deadline = clock of `store.put` + ttl; `PutEffect`
+                                                   holds at the answer IF no action was aimed at the key / the key id
+                                                   in that window (`Undisturbed`)
+       `…_partial`                                 what holds at the answer UNCONDITIONALLY (index entry written, the
+                                                   stored entry — if any — carries the id, the charge — if any — is
+                                                   the command's)
+       `…_counterexample`, `…_counterexample_swept`  FINDING (benign): the unconditional full clause is FALSE for a put
+                                                   with a time-to-live — see below
+       `C12_layerB_put_rejected_no_effect`         `KeyAlreadyExists` / `TooHeavy` / `NoSpace`: the answering action
+                                                   changes nothing, the command's id is neither charged, stored nor
+                                                   indexed; the reason holds in that state
+       `C12_layerB_put_before_insert_step`         what precedes a rejection: evictions only (O5)
+       `PutEffect.undisturbed`                     the effect stays until one of the named actions
+  3  DELETE
+       `C04_layerB_delete_effect_before_ack`       at the `Accepted` answer: key absent, the removed entry's id not
+                                                   charged, accounting identity with nothing of the worker in flight,
+                                                   the index entry of the stored deadline gone   (from the command's
+                                                   `store.remove`, the worker staying inside the command: `InCmd`)
+       `C04_layerB_delete_rejected_no_effect`      `KeyDoesNotExist`: no entry when the worker looked, nothing changed
+       `C04_layerB_put_again_not_refused`, `C04_layerB_absent_stays`, `C04_layerB_absent_key_uncharged`
+  4  UPDATE WEIGHT
+       `C08_layerB_update_weight_effect_before_ack`  `Accepted` ⇒ charged with exactly `w` and the total moved by
+                                                   `w − old`, OR the id was not charged and NOTHING changed (the
+                                                   `Accepted` no-op, O6 / D14); `C08_layerB_charge_stays`
+  5  COMPOSITION with the slice `AckB` (CachedModel/Ack.lean, Properties/C12.lean)
+       `AckRun h D`            the composed system: Layer B's answering action of handle `h` IS the slice's `setStatus`,
+                               and the slice's `final` IS the status `finishCmd` passes
+       `C12_layerB_layer_or_answer`   every Layer B action is a `layer` or an `answer` step of it
+       `AckLink`, `C12_layerB_ready_implies_effect`   generic: `Ready(x)` ⇒ `x = final`, Layer B's cell holds `x`,
+                               and (`x = Accepted`) the effect holds in the CURRENT Layer B state
+       `C12_layerB_ready_accepted_implies_effect`     for `put`, `put` with ttl, `delete`, `UpdateWeight`
+                               (`cmdFirstPos`, `cmdDisturbs`, `CmdEffect`)
+       `C12_layerB_answered_accepted_implies_effect`  the interface at Layer B alone: `acks[h] = Accepted` ⇒ effect in
+                               place, since the answering action, until one of the named actions
+  6  SPOT ANSWERS  `C12_layerB_spot_put_exists`, `C12_layerB_spot_upsert_accepted`, `C12_layerB_spot_after_shutdown`
+                   (after the flag: `Err`, NO acknowledgement), `C12_layerB_spot_answers` (nothing else is answered on the
+                   spot; never `Pending`)
+  7  concrete multi-thread runs (`decide` / `rfl`): every implication above has its hypotheses satisfied by one.
+
+  FINDINGS
+    * FALSE as stated, benign: "`put_with_ttl` answered `Accepted` ⇒ store holds (v, id, deadline, not deleted), id
+      charged".  `store.put` and the answer are two actions; in between the entry is visible, so a concurrent
+      `delete` can mark it (`…_counterexample`: `Accepted`, and a `get` issued after it returns `None`) and a concurrent
+      `put_or_update` + a sweeper tick can remove it altogether (`…_counterexample_swept`: `Accepted` with the key
+      neither stored nor charged, and a stale index entry left behind by the worker's `ttl.put`).  Both runs are
+      linearizable (the other call takes effect between the put and its answer); the true statement needs "no action
+      aimed at the key / the key id in the window".  A put WITHOUT time-to-live has no window: its clause is
+      unconditional.
+    * `Accepted` for `UpdateWeight` does not say the weight was applied (no-op on an uncharged id): known, O6 / D14.
+    * `NoSpace` leaves the earlier evictions in place: known, O5.
+    * After shutdown the writes return `Err` — there is no acknowledgement to speak of.
+  Hypothesis used throughout: `shutting = false` (`shutdown()` clears store and ledger in separate actions, `BAcct`).
+-/
 import CachedProofs.LayerB.AckEffectLemmas
 import CachedProofs.Properties.C12
 
@@ -603,7 +675,7 @@ theorem C04_layerB_delete_rejected_no_effect {cfg : Cfg} {now : Nat} {seeds : Li
 /-- **C04: the key can be put again.**  In a state in which the key is absent (in particular the state in which a
     `Delete` is answered `Accepted`, `C04_layerB_delete_effect_before_ack`) neither presence check refuses a put of it:
     the caller's check moves on to `id.next`, the worker's re-check moves on to the admission (or refuses the put as too
-    heavy) — the put is admitted or rejected by ADMISSION alone. -/
+    heavy) — the put is taken in or rejected by ADMISSION alone. -/
 theorem C04_layerB_put_again_not_refused {b : BState} {k : Nat} (hk : b.g.store.get? k = none) :
     (∀ {i v : Nat} {w : Int} {ttl : Option Nat} {o o' : Oracle} {b' : BState},
       b.cl[i]? = some (.putPresent k v w ttl) → stepB b (.client i) o = .ok (b', o') →
@@ -615,6 +687,32 @@ theorem C04_layerB_put_again_not_refused {b : BState} {k : Nat} (hk : b.g.store.
     exact C07_layerB_absent_not_refused.1 hpc hk hs
   · intro c o o' b' hw hck hs
     exact C07_layerB_absent_not_refused.2 hw (by rw [hck]; exact hk) hs
+
+/-- inside one command the worker keeps the put it took -/
+theorem ack_cmd_inCmd {b1 b : BState} {c : PutCmd} (hq : InCmd b1 b) (hc : b1.w.cmd? = some c) : b.w.cmd? = some c := by
+  induction hq with
+  | refl => exact hc
+  | @step b2 b3 a o o' _ hs hbusy ih =>
+    by_cases ha : a = .worker
+    · subst ha
+      rcases ack_cmd_next (workerAct_trans (ack_stepB_worker hs)) ih with h1 | h1 | h1
+      · exact h1
+      · rw [h1] at hbusy; cases hbusy
+      · rw [h1] at hbusy; cases hbusy
+    · rw [ent_stepB_w_other hs ha]; exact ih
+
+/-- **C12 (put), from the take** — the form of `C04_layerB_delete_effect_before_ack`: the worker has just taken the put
+    `c` (no time-to-live, handle `h`: it stands at `store.present`, `WTrans.recvPut`); `b1 ⇒ b` any run of any threads
+    during which the worker stays inside the command; `b → b'` the worker's action that answers the cell `h` with
+    `Accepted`; running cache.  Then the effect of the put is in place in `b'`. -/
+theorem C12_layerB_put_effect_from_take {cfg : Cfg} {now : Nat} {seeds : List Nat} {clients : Nat} {b1 b b' : BState}
+    {o o' : Oracle} {c : PutCmd} {h : Nat} (hr : Reach cfg now seeds clients b1) (hw : b1.w = .present c)
+    (hh : c.h = some h) (httl : c.ttl = none) (hq : InCmd b1 b) (hs : stepB b .worker o = .ok (b', o'))
+    (hrun : b'.g.shutting = false) (ha : b'.g.acks[h]? = some .accepted) :
+    b.w = .storePut c ∧ b.g.store.get? c.k = none ∧ PutEffect b' c none :=
+  have h := C12_layerB_put_effect_before_ack (hq.reach hr) (stepB_running_before hs hrun)
+    (ack_cmd_inCmd hq (by rw [hw]; rfl)) hh httl hs ha
+  ⟨h.1, h.2.2.1, h.2.2.2.2.1⟩
 
 /-! ## 4  `UpdateWeight`: the charge is the new weight when the acknowledgement is answered — or the id was not charged -/
 
@@ -652,6 +750,1246 @@ theorem C08_layerB_update_weight_effect_before_ack {cfg : Cfg} {now : Nat} {seed
     rw [hpend] at ha
     simp only [Option.some.injEq] at ha
     exact absurd ha.symm hne
+
+/-! ## 5  stability of the other effects, and the composition with the acknowledgement slice `AckB` -/
+
+/-- **C04 (interface, delete): a key that is absent stays absent until the worker's `store.put` of a put of that key** —
+    whatever else happens (any state, any thread). -/
+theorem C04_layerB_absent_stays {b b' : BState} {a : Act} {o o' : Oracle} {k : Nat} (hs : stepB b a o = .ok (b', o'))
+    (hc : creates k b a = false) (hk : b.g.store.get? k = none) : b'.g.store.get? k = none := by
+  cases hk' : b'.g.store.get? k with
+  | none => rfl
+  | some e' =>
+    obtain ⟨rfl, c, exp, hw, hck, _, _⟩ := C07_layerB_only_worker_creates hs hk hk'
+    simp [creates, hw, hck] at hc
+
+/-- **C04: an absent key is charged under no id** (running cache, the worker between two commands): the ledger holds no
+    charge for the key — its weight is not counted. -/
+theorem C04_layerB_absent_key_uncharged {cfg : Cfg} {now : Nat} {seeds : List Nat} {clients : Nat} {b : BState}
+    (hr : Reach cfg now seeds clients b) (hrun : b.g.shutting = false) (hw : b.w = .recv) {k : Nat}
+    (hk : b.g.store.get? k = none) : ∀ id wk, b.g.adm.kw.get? id = some wk → wk.key ≠ k := by
+  intro id wk hg hkey
+  rcases (bbij_reach hr hrun).chargedHeld (by rw [hw]; simp) id wk hg with ⟨e, he, _⟩ | ⟨c, hc, _⟩ | hd
+  · rw [hkey, hk] at he; cases he
+  · rw [hw] at hc; cases hc
+  · rw [hw] at hd; cases hd
+
+/-- **C08 (interface, `UpdateWeight`): the charge of an id stays what it is until an action reaches into the ledger at
+    that id** (running cache). -/
+theorem C08_layerB_charge_stays {cfg : Cfg} {now : Nat} {seeds : List Nat} {clients : Nat} {b b' : BState} {a : Act}
+    {o o' : Oracle} {id : Nat} (hr : Reach cfg now seeds clients b) (hrun : b.g.shutting = false)
+    (hs : stepB b a o = .ok (b', o')) (hq : kwTouches id b a = false) :
+    b'.g.adm.kw.get? id = b.g.adm.kw.get? id :=
+  ack_kw_quiet_step (binv_reach hr) hrun hs hq
+
+/-- every action either leaves the cell `h` alone or is the worker's action that answers it -/
+theorem C12_layerB_layer_or_answer {cfg : Cfg} {now : Nat} {seeds : List Nat} {clients : Nat} {b b' : BState} {a : Act}
+    {o o' : Oracle} {h : Nat} {x : Status} (hr : Reach cfg now seeds clients b) (hs : stepB b a o = .ok (b', o'))
+    (hx : b.g.acks[h]? = some x) :
+    b'.g.acks[h]? = b.g.acks[h]? ∨
+    (a = .worker ∧ x = .pending ∧ ∃ st, st ≠ .pending ∧ b'.g.acks[h]? = some st) := by
+  by_cases hpen : x = .pending
+  · subst hpen
+    have hlen := (C11_layerB_acks_grow (hinv_reach hr) hs).1
+    have hlt := lt_of_getElem?_some hx
+    have hsome : ∃ st, b'.g.acks[h]? = some st := ⟨b'.g.acks[h]'(by omega), by simp [show h < b'.g.acks.length by omega]⟩
+    obtain ⟨st, hst⟩ := hsome
+    by_cases hp' : st = .pending
+    · left; rw [hst, hx, hp']
+    · right
+      exact ⟨C11_layerB_only_worker_answers hs hx hst hp', rfl, st, hp', hst⟩
+  · left
+    rw [(C11_layerB_acks_grow (hinv_reach hr) hs).2 h x hx hpen, hx]
+
+/-- **The composed system**: Layer B together with the slice `AckB` of the cell of ONE handle `h`.
+    * `layer`: an action of Layer B that leaves the cell `h` alone; the slice stands still;
+    * `answer`: the worker's action that answers the cell `h` with `st` — `finishCmd … st`, the last action of the
+      command — IS the completer's first access `setStatus` of the slice, and the slice's free parameter `final` is the
+      status `finishCmd` passes (`s.final = st`);
+    * `cell`: the completer's remaining accesses (`setFlag`, `wake`) and every access of every poller; Layer B stands
+      still.
+    `D b a` marks the Layer B actions the run is NOT allowed to contain (instantiated below with "aimed at the key / the
+    key id once the effect is in place"). -/
+inductive AckRun (h : Nat) (D : BState → Act → Bool) : BState × AckB.St → BState × AckB.St → Prop where
+  | refl (x : BState × AckB.St) : AckRun h D x x
+  | layer {x : BState × AckB.St} {b b' : BState} {s : AckB.St} {a : Act} {o o' : Oracle} :
+      AckRun h D x (b, s) → stepB b a o = .ok (b', o') → D b a = false → b'.g.acks[h]? = b.g.acks[h]? →
+      AckRun h D x (b', s)
+  | answer {x : BState × AckB.St} {b b' : BState} {s s' : AckB.St} {o o' : Oracle} {st : Status} :
+      AckRun h D x (b, s) → stepB b .worker o = .ok (b', o') → D b .worker = false →
+      b.g.acks[h]? = some .pending → b'.g.acks[h]? = some st → st ≠ .pending → s.final = st →
+      AckB.step s .setStatus = some s' → AckRun h D x (b', s')
+  | cell {x : BState × AckB.St} {b : BState} {s s' : AckB.St} {act : AckB.Act} :
+      AckRun h D x (b, s) → act ≠ .setStatus → AckB.step s act = some s' → AckRun h D x (b, s')
+
+/-- what the composition needs from Layer B, for a handle `h`, an in-command invariant `I`, an effect `E` and the
+    excluded actions `D`: while the cell is pending an allowed action keeps `I` or answers the cell, and an `Accepted`
+    answer establishes `E`; once established, `E` is kept by every allowed action (running cache) -/
+structure AckLink (cfg : Cfg) (now : Nat) (seeds : List Nat) (clients : Nat) (h : Nat) (D : BState → Act → Bool)
+    (I E : BState → Prop) : Prop where
+  inCmd : ∀ {b b' : BState} {a : Act} {o o' : Oracle}, Reach cfg now seeds clients b → b'.g.shutting = false → I b →
+    b.g.acks[h]? = some .pending → stepB b a o = .ok (b', o') → D b a = false →
+    (b'.g.acks[h]? = some .pending → I b') ∧ (b'.g.acks[h]? = some .accepted → E b')
+  after : ∀ {b b' : BState} {a : Act} {o o' : Oracle}, Reach cfg now seeds clients b → b'.g.shutting = false → E b →
+    b.g.acks[h]? = some .accepted → stepB b a o = .ok (b', o') → D b a = false → E b'
+
+/-- the invariant of the composed run -/
+def AckJ (cfg : Cfg) (now : Nat) (seeds : List Nat) (clients : Nat) (h : Nat) (I E : BState → Prop) (final : Status)
+    (n : Nat) (y : BState × AckB.St) : Prop :=
+  Reach cfg now seeds clients y.1 ∧ AckB.Reachable final n y.2 ∧
+  ((y.1.g.acks[h]? = some .pending ∧ y.2.cpc = .beforeStatus ∧ (y.1.g.shutting = false → I y.1)) ∨
+   (∃ st, st ≠ .pending ∧ y.1.g.acks[h]? = some st ∧ y.2.final = st ∧ y.2.cpc ≠ .beforeStatus ∧
+      (st = .accepted → y.1.g.shutting = false → E y.1)))
+
+theorem ackJ_run {cfg : Cfg} {now : Nat} {seeds : List Nat} {clients : Nat} {h : Nat} {D : BState → Act → Bool}
+    {I E : BState → Prop} {final : Status} {n : Nat} (hl : AckLink cfg now seeds clients h D I E)
+    {x y : BState × AckB.St} (hx : AckJ cfg now seeds clients h I E final n x) (hrun : AckRun h D x y) :
+    AckJ cfg now seeds clients h I E final n y := by
+  induction hrun with
+  | refl => exact hx
+  | @layer b b' s a o o' _ hs hd hsame ih =>
+    obtain ⟨hr, hsr, hph⟩ := ih
+    refine ⟨.step hr hs, hsr, ?_⟩
+    rcases hph with ⟨hp, hc, hI⟩ | ⟨st, hne, hst, hf, hc, hE⟩
+    · refine Or.inl ⟨by rw [hsame]; exact hp, hc, fun hrun' => ?_⟩
+      exact (hl.inCmd hr hrun' (hI (stepB_running_before hs hrun')) hp hs hd).1 (by rw [hsame]; exact hp)
+    · refine Or.inr ⟨st, hne, by rw [hsame]; exact hst, hf, hc, fun hacc hrun' => ?_⟩
+      subst hacc
+      exact hl.after hr hrun' (hE rfl (stepB_running_before hs hrun')) hst hs hd
+  | @answer b b' s s' o o' st _ hs hd hp hst hne hfin hstep ih =>
+    obtain ⟨hr, hsr, hph⟩ := ih
+    have hs'c : s'.final = s.final ∧ s'.cpc = .beforeFlag := by
+      rcases AckB.step_cases hstep with ⟨_, _, rfl⟩ | ⟨h1, _⟩ | ⟨h1, _⟩ | ⟨_, _, _, h1, _⟩ | ⟨_, _, h1, _⟩ |
+        ⟨_, _, h1, _⟩ | ⟨_, _, h1, _⟩
+      · exact ⟨rfl, rfl⟩
+      all_goals cases h1
+    refine ⟨.step hr hs, hsr.step hstep, ?_⟩
+    rcases hph with ⟨_, _, hI⟩ | ⟨st0, hne0, hst0, _⟩
+    · refine Or.inr ⟨st, hne, hst, by rw [hs'c.1]; exact hfin, by rw [hs'c.2]; simp, fun hacc hrun' => ?_⟩
+      subst hacc
+      exact (hl.inCmd hr hrun' (hI (stepB_running_before hs hrun')) hp hs hd).2 hst
+    · simp only [] at hst0
+      rw [hp] at hst0
+      simp only [Option.some.injEq] at hst0
+      exact absurd hst0.symm hne0
+  | @cell b s s' act _ hact hstep ih =>
+    obtain ⟨hr, hsr, hph⟩ := ih
+    have hkeep : s'.final = s.final ∧ (s.cpc = .beforeStatus → s'.cpc = .beforeStatus) ∧
+        (s.cpc ≠ .beforeStatus → s'.cpc ≠ .beforeStatus) := by
+      rcases AckB.step_cases hstep with ⟨h1, _⟩ | ⟨_, hc, rfl⟩ | ⟨_, hc, _, rfl⟩ | ⟨_, _, _, _, _, _, _, rfl⟩ |
+        ⟨_, _, _, _, _, _, rfl⟩ | ⟨_, _, _, _, _, _, rfl⟩ | ⟨_, _, _, _, _, rfl⟩
+      · exact absurd h1 hact
+      · exact ⟨rfl, fun e => (by rw [e] at hc; cases hc), fun _ => (by simp)⟩
+      · exact ⟨rfl, fun e => (by rw [e] at hc; cases hc), fun _ => (by simp)⟩
+      all_goals exact ⟨rfl, fun e => e, fun e => e⟩
+    refine ⟨hr, hsr.step hstep, ?_⟩
+    rcases hph with ⟨hp, hc, hI⟩ | ⟨st, hne, hst, hf, hc, hE⟩
+    · exact Or.inl ⟨hp, hkeep.2.1 hc, hI⟩
+    · exact Or.inr ⟨st, hne, hst, by rw [hkeep.1]; exact hf, hkeep.2.2 hc, hE⟩
+
+/-- **C12, composed (generic form).**  A run of the composed system from a state in which the cell `h` is pending, the
+    in-command invariant holds and the completer has not started: whenever a poll has returned `Ready(x)`, `x` is the
+    status the worker's `finishCmd` passed (the slice's `final`), Layer B's cell `h` holds it — the worker's answering
+    action HAS run — and if `x = Accepted` the effect `E` holds in the CURRENT Layer B state. -/
+theorem C12_layerB_ready_implies_effect {cfg : Cfg} {now : Nat} {seeds : List Nat} {clients : Nat} {h : Nat}
+    {D : BState → Act → Bool} {I E : BState → Prop} {final : Status} {n : Nat}
+    (hl : AckLink cfg now seeds clients h D I E) {b0 b : BState} {s0 s : AckB.St}
+    (hr0 : Reach cfg now seeds clients b0) (hp0 : b0.g.acks[h]? = some .pending) (hI0 : I b0)
+    (hs0 : AckB.Reachable final n s0) (hc0 : s0.cpc = .beforeStatus) (hrun : AckRun h D (b0, s0) (b, s))
+    (hrunning : b.g.shutting = false) {q : AckB.Poller} {x : Status} (hq : q ∈ s.pollers)
+    (hres : .ready x ∈ q.results) :
+    x = final ∧ x ≠ .pending ∧ b.g.acks[h]? = some x ∧ (x = .accepted → E b) := by
+  obtain ⟨_, hsr, hph⟩ := ackJ_run hl (x := (b0, s0)) ⟨hr0, hs0, Or.inl ⟨hp0, hc0, fun _ => hI0⟩⟩ hrun
+  obtain ⟨hflag, hxf⟩ := AckB.C12_ready_implies_flag hsr hq hres
+  obtain ⟨inv, hfin, _⟩ := AckB.C12_invariant hsr
+  have hcpc : s.cpc ≠ .beforeStatus := by
+    rcases inv.flag_iff.mp hflag with e | e <;> rw [e] <;> simp
+  rcases hph with ⟨_, hc, _⟩ | ⟨st, hne, hst, hf, _, hE⟩
+  · exact absurd hc hcpc
+  · simp only [] at hf hst hE
+    have : st = x := by rw [hxf, ← hfin, hf]
+    subst this
+    exact ⟨hxf, hne, hst, fun hacc => hE hacc hrunning⟩
+
+/-! ### the four instantiations -/
+
+/-- while the cell is pending, nobody but a living worker can make it `Accepted` -/
+theorem ack_only_live_worker {b b' : BState} {a : Act} {o o' : Oracle} {h : Nat} (hs : stepB b a o = .ok (b', o'))
+    (hp : b.g.acks[h]? = some .pending) (ha : a ≠ .worker ∨ b.w = .dead) : b'.g.acks[h]? ≠ some .accepted := by
+  intro hacc
+  have hw := C11_layerB_only_worker_answers hs hp hacc (by simp)
+  subst hw
+  rcases ha with ha | hd
+  · exact ha rfl
+  · simp [stepB, workerAct, hd] at hs
+
+/-- the dead worker: the cell stays pending for ever -/
+theorem ack_dead_link {b b' : BState} {a : Act} {o o' : Oracle} {h : Nat} (hs : stepB b a o = .ok (b', o'))
+    (hp : b.g.acks[h]? = some .pending) (hd : b.w = .dead) :
+    b'.w = .dead ∧ b'.g.acks[h]? ≠ some .accepted :=
+  ⟨dead_step hs hd, ack_only_live_worker hs hp (Or.inr hd)⟩
+
+/-- a worker action that leaves a held cell pending leaves the worker busy, or dead -/
+theorem ack_pending_busy_or_dead {cfg : Cfg} {now : Nat} {seeds : List Nat} {clients : Nat} {b b' : BState}
+    {o o' : Oracle} {h : Nat} (hr : Reach cfg now seeds clients b) (hheld : b.w.held = some h)
+    (hs : stepB b .worker o = .ok (b', o')) (hp' : b'.g.acks[h]? = some .pending) :
+    b'.w.busy = true ∨ b'.w = .dead := by
+  have hb : b.w.busy = true := by
+    cases hw : b.w <;> simp [hw, WPc.held] at hheld <;> rfl
+  cases hb' : b'.w.busy with
+  | true => exact Or.inl rfl
+  | false =>
+    rcases C11_layerB_completion_answers (hinv_reach hr) hs hb hheld hb' with hd | ⟨_, st, hst, hne⟩
+    · exact Or.inr hd
+    · rw [hp'] at hst
+      simp only [Option.some.injEq] at hst
+      exact absurd hst.symm hne
+
+/-- the actions a composed run must not contain: those aimed at the key / the key id, ONCE THE EFFECT IS IN PLACE
+    (the cell is answered; for a put with a time-to-live: from `store.put` on, i.e. also while the worker stands at
+    `ttl.put`).  Before that, everything is allowed. -/
+def WPc.isTtlPut : WPc → Bool
+  | .ttlPut _ _ => true
+  | _ => false
+
+def answeredB (b : BState) (h : Nat) : Bool := decide (b.g.acks[h]? ≠ some .pending)
+
+def cmdDisturbs (cmd : Cmd) (h : Nat) (b : BState) (a : Act) : Bool :=
+  match cmd with
+  | .put id _ _ k _ => disturbs k id b a && answeredB b h
+  | .putTtl id _ _ k _ _ => disturbs k id b a && (answeredB b h || b.w.isTtlPut)
+  | .delete k => creates k b a && answeredB b h
+  | .updateWeight id _ => kwTouches id b a && answeredB b h
+  | .shutdown => false
+
+/-- the effect clause of an accepted command, on the shared state -/
+def CmdEffect (cmd : Cmd) (h : Nat) (b : BState) : Prop :=
+  match cmd with
+  | .put id hash w k v => PutEffect b ⟨id, hash, w, k, v, none, some h⟩ none
+  | .putTtl id hash w k v t => ∃ e, PutEffect b ⟨id, hash, w, k, v, some t, some h⟩ (some e)
+  | .delete k => b.g.store.get? k = none
+  | .updateWeight id w => ∀ wk, b.g.adm.kw.get? id = some wk → wk.weight = w
+  | .shutdown => True
+
+/-- the worker's position right after it has taken `cmd` with handle `h` from the queue (`WTrans.recvPut`,
+    `recvUpdate`, `recvDelete`) -/
+def cmdFirstPos (cmd : Cmd) (h : Nat) : WPc :=
+  match cmd with
+  | .put id hash w k v => .present ⟨id, hash, w, k, v, none, some h⟩
+  | .putTtl id hash w k v t => .present ⟨id, hash, w, k, v, some t, some h⟩
+  | .delete k => .delStore k (some h)
+  | .updateWeight id w => .update id w (some h)
+  | .shutdown => .drain
+
+theorem answeredB_true {b : BState} {h : Nat} (ha : b.g.acks[h]? = some .accepted) : answeredB b h = true := by
+  simp [answeredB, ha]
+
+theorem ackLink_put {cfg : Cfg} {now : Nat} {seeds : List Nat} {clients : Nat} {c : PutCmd} {h : Nat}
+    (hh : c.h = some h) (httl : c.ttl = none) :
+    AckLink cfg now seeds clients h (fun b a => disturbs c.k c.id b a && answeredB b h)
+      (fun b => b.w = .dead ∨ b.w.cmd? = some c) (fun b => PutEffect b c none) := by
+  constructor
+  · intro b b' a o o' hr hrun' hI hp hs _
+    have hrun := stepB_running_before hs hrun'
+    rcases hI with hd | hc
+    · exact ⟨fun _ => Or.inl (ack_dead_link hs hp hd).1, fun hacc => absurd hacc (ack_dead_link hs hp hd).2⟩
+    · have hheld : b.w.held = some h := by rw [(ack_held_of_cmd hc).1, hh]
+      by_cases ha : a = .worker
+      · subst ha
+        refine ⟨fun hp' => ?_, fun hacc => (C12_layerB_put_effect_before_ack hr hrun hc hh httl hs hacc).2.2.2.2.1⟩
+        rcases ack_cmd_next (workerAct_trans (ack_stepB_worker hs)) hc with h1 | h1 | h1
+        · exact Or.inr h1
+        · rcases ack_pending_busy_or_dead hr hheld hs hp' with h2 | h2
+          · rw [h1] at h2; cases h2
+          · exact Or.inl h2
+        · exact Or.inl h1
+      · exact ⟨fun _ => Or.inr (by rw [ent_stepB_w_other hs ha]; exact hc),
+          fun hacc => absurd hacc (ack_only_live_worker hs hp (Or.inl ha))⟩
+  · intro b b' a o o' hr hrun' hE hacc hs hd
+    have hrun := stepB_running_before hs hrun'
+    rw [answeredB_true hacc, Bool.and_true] at hd
+    exact hE.undisturbed_step (binv_reach hr) (wabsent_reach hr) hrun hs hd
+
+theorem ackLink_putTtl {cfg : Cfg} {now : Nat} {seeds : List Nat} {clients : Nat} {c : PutCmd} {h t : Nat}
+    (hh : c.h = some h) (httl : c.ttl = some t) :
+    AckLink cfg now seeds clients h (fun b a => disturbs c.k c.id b a && (answeredB b h || b.w.isTtlPut))
+      (fun b => b.w = .dead ∨ (b.w.cmd? = some c ∧ ∀ e, b.w = .ttlPut c e →
+        b.g.store.get? c.k = some { value := c.v, id := c.id, expiry := some e, soft := false } ∧
+        b.g.adm.kw.get? c.id = some { key := c.k, hash := c.hash, weight := c.w }))
+      (fun b => ∃ e, PutEffect b c (some e)) := by
+  constructor
+  · intro b b' a o o' hr hrun' hI hp hs hD
+    have hrun := stepB_running_before hs hrun'
+    rcases hI with hd | ⟨hc, hwin⟩
+    · exact ⟨fun _ => Or.inl (ack_dead_link hs hp hd).1, fun hacc => absurd hacc (ack_dead_link hs hp hd).2⟩
+    · have hheld : b.w.held = some h := by rw [(ack_held_of_cmd hc).1, hh]
+      by_cases ha : a = .worker
+      · subst ha
+        have ht := workerAct_trans (ack_stepB_worker hs)
+        constructor
+        · intro hp'
+          rcases ack_cmd_next ht hc with h1 | h1 | h1
+          · refine Or.inr ⟨h1, ?_⟩
+            intro e he
+            obtain ⟨hw, _, hadm, hst⟩ := ack_wtrans_to_ttlPut ht he
+            refine ⟨by rw [hst]; simp, ?_⟩
+            rw [hadm]
+            exact (ackInv_reach hr).putCharged hrun c hw
+          · rcases ack_pending_busy_or_dead hr hheld hs hp' with h2 | h2
+            · rw [h1] at h2; cases h2
+            · exact Or.inl h2
+          · exact Or.inl h1
+        · intro hacc
+          obtain ⟨e, hw, _, _, hidx, _, hst, hadm, _, _⟩ :=
+            C12_layerB_put_ttl_effect_before_ack_partial hr hrun hc hh httl hs hacc
+          obtain ⟨h1, h2⟩ := hwin e hw
+          exact ⟨e, by rw [hst]; exact h1, by rw [hadm]; exact h2, fun e' he' => by cases he'; exact hidx⟩
+      · have hw := ent_stepB_w_other hs ha
+        refine ⟨fun _ => Or.inr ⟨by rw [hw]; exact hc, ?_⟩,
+          fun hacc => absurd hacc (ack_only_live_worker hs hp (Or.inl ha))⟩
+        intro e he
+        rw [hw] at he
+        have hd : disturbs c.k c.id b a = false := by
+          simpa [he, WPc.isTtlPut] using hD
+        obtain ⟨d1, d2, _⟩ := disturbs_false hd
+        obtain ⟨h1, h2⟩ := hwin e he
+        exact ⟨C03_layerB_quiet_step (wabsent_reach hr) hs d1 h1,
+          by rw [ack_kw_quiet_step (binv_reach hr) hrun hs d2]; exact h2⟩
+  · intro b b' a o o' hr hrun' hE hacc hs hd
+    have hrun := stepB_running_before hs hrun'
+    rw [answeredB_true hacc, Bool.true_or, Bool.and_true] at hd
+    obtain ⟨e, he⟩ := hE
+    exact ⟨e, he.undisturbed_step (binv_reach hr) (wabsent_reach hr) hrun hs hd⟩
+
+theorem ackLink_delete {cfg : Cfg} {now : Nat} {seeds : List Nat} {clients : Nat} {k h : Nat} :
+    AckLink cfg now seeds clients h (fun b a => creates k b a && answeredB b h)
+      (fun b => b.w = .dead ∨ b.w = .delStore k (some h) ∨ ∃ ent, DelPos k ent (some h) b)
+      (fun b => b.g.store.get? k = none) := by
+  constructor
+  · intro b b' a o o' hr hrun' hI hp hs _
+    have hrun := stepB_running_before hs hrun'
+    rcases hI with hd | hw | ⟨ent, hpos⟩
+    · exact ⟨fun _ => Or.inl (ack_dead_link hs hp hd).1, fun hacc => absurd hacc (ack_dead_link hs hp hd).2⟩
+    · by_cases ha : a = .worker
+      · subst ha
+        have hlt := ack_held_lt hr (h := h) (by rw [hw]; rfl)
+        obtain ⟨_, _, ⟨_, rfl⟩ | ⟨ent, _, rfl⟩⟩ := ent_workerAct_delStore hw (ack_stepB_worker hs)
+        · constructor
+          · intro hp'; rw [ack_finishCmd_get hlt] at hp'; cases hp'
+          · intro hacc; rw [ack_finishCmd_get hlt] at hacc; cases hacc
+        · constructor
+          · intro _; exact Or.inr (Or.inr ⟨ent, by simp, Or.inl rfl⟩)
+          · intro hacc; simp only [] at hacc; rw [hp] at hacc; cases hacc
+      · exact ⟨fun _ => Or.inr (Or.inl (by rw [ent_stepB_w_other hs ha]; exact hw)),
+          fun hacc => absurd hacc (ack_only_live_worker hs hp (Or.inl ha))⟩
+    · have hheld : b.w.held = some h := by
+        rcases hpos.2 with hw | ⟨⟨wk, hw⟩ | ⟨e, _, hw⟩, _⟩ <;> rw [hw] <;> rfl
+      by_cases ha : a = .worker
+      · subst ha
+        constructor
+        · intro hp'
+          rcases ack_pending_busy_or_dead hr hheld hs hp' with h2 | h2
+          · exact Or.inr (Or.inr ⟨ent, delPos_step (binv_reach hr) hrun hpos hs h2⟩)
+          · exact Or.inl h2
+        · intro _
+          have hst : b'.g.store = b.g.store := by
+            apply ent_wtrans_store_same (workerAct_trans (ack_stepB_worker hs))
+            all_goals rcases hpos.2 with hw | ⟨⟨wk, hw⟩ | ⟨e, _, hw⟩, _⟩ <;> rw [hw] <;> intros <;> simp
+          rw [hst]; exact hpos.1
+      · refine ⟨fun _ => Or.inr (Or.inr ⟨ent, delPos_step (binv_reach hr) hrun hpos hs ?_⟩),
+          fun hacc => absurd hacc (ack_only_live_worker hs hp (Or.inl ha))⟩
+        rw [ent_stepB_w_other hs ha]
+        cases hw : b.w <;> simp [hw, WPc.held] at hheld <;> rfl
+  · intro b b' a o o' hr hrun' hE hacc hs hd
+    rw [answeredB_true hacc, Bool.and_true] at hd
+    exact C04_layerB_absent_stays hs hd hE
+
+theorem ackLink_update {cfg : Cfg} {now : Nat} {seeds : List Nat} {clients : Nat} {id h : Nat} {w : Int} :
+    AckLink cfg now seeds clients h (fun b a => kwTouches id b a && answeredB b h)
+      (fun b => b.w = .dead ∨ b.w = .update id w (some h))
+      (fun b => ∀ wk, b.g.adm.kw.get? id = some wk → wk.weight = w) := by
+  constructor
+  · intro b b' a o o' hr hrun' hI hp hs _
+    rcases hI with hd | hw
+    · exact ⟨fun _ => Or.inl (ack_dead_link hs hp hd).1, fun hacc => absurd hacc (ack_dead_link hs hp hd).2⟩
+    · by_cases ha : a = .worker
+      · subst ha
+        constructor
+        · intro hp'
+          have hheld : b.w.held = some h := by rw [hw]; rfl
+          rcases ack_pending_busy_or_dead hr hheld hs hp' with h2 | h2
+          · obtain ⟨_, _, ⟨_, rfl⟩ | ⟨wk, _, _, _, rfl⟩ | ⟨wk, _, _, rfl⟩⟩ :=
+              ack_workerAct_update hw (ack_stepB_worker hs) <;> cases h2
+          · exact Or.inl h2
+        · intro hacc
+          obtain ⟨_, _, _, _, _, hcase⟩ := C08_layerB_update_weight_effect_before_ack hr hw hs hacc (by simp)
+          intro wk' hg
+          rcases hcase with ⟨wk, _, hg', _⟩ | ⟨hnone, hadm, _⟩
+          · rw [hg'] at hg; cases hg; rfl
+          · rw [hadm, hnone] at hg; cases hg
+      · exact ⟨fun _ => Or.inr (by rw [ent_stepB_w_other hs ha]; exact hw),
+          fun hacc => absurd hacc (ack_only_live_worker hs hp (Or.inl ha))⟩
+  · intro b b' a o o' hr hrun' hE hacc hs hd
+    have hrun := stepB_running_before hs hrun'
+    rw [answeredB_true hacc, Bool.and_true] at hd
+    rw [ack_kw_quiet_step (binv_reach hr) hrun hs hd]
+    exact hE
+
+/-- **C12, composed with the slice: `Ready(Accepted)` implies the effect.**
+    The worker has just taken the command `cmd` with handle `h` (it stands at the command's first position); the slice
+    of the cell `h` is in any state of its own in which the completer has not started (`final` = the status the worker
+    will pass).  For EVERY run of the composed system from there — any interleaving of Layer B's threads with the
+    completer's `setFlag` / `wake` and the polls of any number of tasks — in which, ONCE THE EFFECT IS IN PLACE, no
+    action is aimed at the key / the key id (`cmdDisturbs`), and with the cache still running:
+    if a poll has returned `Ready(Accepted)`, then the slice's outcome is `Accepted`, Layer B's cell holds `Accepted`
+    (the worker's answering action has run), and the CURRENT Layer B state satisfies the command's effect clause:
+    * `put`:            the store holds exactly the command's entry, the id is charged with the command's weight;
+    * `put` with ttl:   the same with some deadline `e`, and the index holds `(shard of e, id) ↦ e`;
+    * `delete`:         the key is absent (hence charged under no id: `C04_layerB_absent_key_uncharged`);
+    * `UpdateWeight`:   the id, if charged at all, is charged with exactly the new weight (the `Accepted` no-op on an
+                        uncharged id is allowed: O6 / D14). -/
+theorem C12_layerB_ready_accepted_implies_effect {cfg : Cfg} {now : Nat} {seeds : List Nat} {clients : Nat}
+    {cmd : Cmd} {h : Nat} {final : Status} {n : Nat} {b0 b : BState} {s0 s : AckB.St}
+    (hr0 : Reach cfg now seeds clients b0) (hw0 : b0.w = cmdFirstPos cmd h) (hcmd : cmd ≠ .shutdown)
+    (hs0 : AckB.Reachable final n s0) (hc0 : s0.cpc = .beforeStatus)
+    (hrun : AckRun h (cmdDisturbs cmd h) (b0, s0) (b, s)) (hrunning : b.g.shutting = false)
+    {q : AckB.Poller} (hq : q ∈ s.pollers) (hres : .ready .accepted ∈ q.results) :
+    final = .accepted ∧ b.g.acks[h]? = some .accepted ∧ CmdEffect cmd h b := by
+  have hheld : b0.w.held = some h := by
+    rw [hw0]; cases cmd <;> first | rfl | exact absurd rfl hcmd
+  have hp0 := ((hinv_reach hr0).held h hheld).1
+  cases cmd with
+  | shutdown => exact absurd rfl hcmd
+  | put id hash w k v =>
+    obtain ⟨h1, _, h3, h4⟩ := C12_layerB_ready_implies_effect
+      (ackLink_put (c := ⟨id, hash, w, k, v, none, some h⟩) rfl rfl) hr0 hp0 (Or.inr (by rw [hw0]; rfl)) hs0 hc0 hrun
+      hrunning hq hres
+    exact ⟨h1.symm, h3, h4 rfl⟩
+  | putTtl id hash w k v t =>
+    obtain ⟨h1, _, h3, h4⟩ := C12_layerB_ready_implies_effect
+      (ackLink_putTtl (c := ⟨id, hash, w, k, v, some t, some h⟩) rfl rfl) hr0 hp0
+      (Or.inr ⟨by rw [hw0]; rfl, fun e he => by rw [hw0] at he; cases he⟩) hs0 hc0 hrun hrunning hq hres
+    exact ⟨h1.symm, h3, h4 rfl⟩
+  | delete k =>
+    obtain ⟨h1, _, h3, h4⟩ := C12_layerB_ready_implies_effect (ackLink_delete (k := k)) hr0 hp0
+      (Or.inr (Or.inl hw0)) hs0 hc0 hrun hrunning hq hres
+    exact ⟨h1.symm, h3, h4 rfl⟩
+  | updateWeight id w =>
+    obtain ⟨h1, _, h3, h4⟩ := C12_layerB_ready_implies_effect (ackLink_update (id := id) (w := w)) hr0 hp0
+      (Or.inr hw0) hs0 hc0 hrun hrunning hq hres
+    exact ⟨h1.symm, h3, h4 rfl⟩
+
+/-! ### the interface theorem at Layer B alone: answered `Accepted` ⇒ the effect is in place, and stays -/
+
+/-- the in-command invariant of the four command kinds (what the composition carries while the cell is pending) -/
+def cmdInv (cmd : Cmd) (h : Nat) (b : BState) : Prop :=
+  match cmd with
+  | .put id hash w k v => b.w = .dead ∨ b.w.cmd? = some ⟨id, hash, w, k, v, none, some h⟩
+  | .putTtl id hash w k v t => b.w = .dead ∨ (b.w.cmd? = some ⟨id, hash, w, k, v, some t, some h⟩ ∧
+      ∀ e, b.w = .ttlPut ⟨id, hash, w, k, v, some t, some h⟩ e →
+        b.g.store.get? k = some { value := v, id := id, expiry := some e, soft := false } ∧
+        b.g.adm.kw.get? id = some { key := k, hash := hash, weight := w })
+  | .delete k => b.w = .dead ∨ b.w = .delStore k (some h) ∨ ∃ ent, DelPos k ent (some h) b
+  | .updateWeight id w => b.w = .dead ∨ b.w = .update id w (some h)
+  | .shutdown => False
+
+theorem ackLink_cmd {cfg : Cfg} {now : Nat} {seeds : List Nat} {clients : Nat} (cmd : Cmd) (h : Nat)
+    (hcmd : cmd ≠ .shutdown) :
+    AckLink cfg now seeds clients h (cmdDisturbs cmd h) (cmdInv cmd h) (CmdEffect cmd h) := by
+  cases cmd with
+  | shutdown => exact absurd rfl hcmd
+  | put id hash w k v => exact ackLink_put (c := ⟨id, hash, w, k, v, none, some h⟩) rfl rfl
+  | putTtl id hash w k v t => exact ackLink_putTtl (c := ⟨id, hash, w, k, v, some t, some h⟩) rfl rfl
+  | delete k => exact ackLink_delete (k := k)
+  | updateWeight id w => exact ackLink_update (id := id) (w := w)
+
+theorem cmdInv_first {cmd : Cmd} {h : Nat} {b : BState} (hcmd : cmd ≠ .shutdown) (hw : b.w = cmdFirstPos cmd h) :
+    cmdInv cmd h b := by
+  cases cmd with
+  | shutdown => exact absurd rfl hcmd
+  | put id hash w k v => exact Or.inr (by rw [hw]; rfl)
+  | putTtl id hash w k v t => exact Or.inr ⟨by rw [hw]; rfl, fun e he => by rw [hw] at he; cases he⟩
+  | delete k => exact Or.inr (Or.inl hw)
+  | updateWeight id w => exact Or.inr hw
+
+/-- runs of Layer B that contain no action marked by `D` -/
+inductive LRun (D : BState → Act → Bool) : BState → BState → Prop where
+  | refl (b : BState) : LRun D b b
+  | step {b b1 b' : BState} {a : Act} {o o' : Oracle} :
+      LRun D b b1 → stepB b1 a o = .ok (b', o') → D b1 a = false → LRun D b b'
+
+theorem LRun.reach {D : BState → Act → Bool} {cfg : Cfg} {now : Nat} {seeds : List Nat} {clients : Nat} {b b' : BState}
+    (h : LRun D b b') (hr : Reach cfg now seeds clients b) : Reach cfg now seeds clients b' := by
+  induction h with
+  | refl => exact hr
+  | step _ hs _ ih => exact .step ih hs
+
+theorem LRun.acks_len {D : BState → Act → Bool} {cfg : Cfg} {now : Nat} {seeds : List Nat} {clients : Nat}
+    {b b' : BState} (h : LRun D b b') (hr : Reach cfg now seeds clients b) : b.g.acks.length ≤ b'.g.acks.length := by
+  induction h with
+  | refl => exact Nat.le_refl _
+  | step hq hs _ ih => exact Nat.le_trans ih (C11_layerB_acks_grow (hinv_reach (hq.reach hr)) hs).1
+
+theorem ackLink_lrun {cfg : Cfg} {now : Nat} {seeds : List Nat} {clients : Nat} {h : Nat} {D : BState → Act → Bool}
+    {I E : BState → Prop} (hl : AckLink cfg now seeds clients h D I E) {b0 b : BState}
+    (hr0 : Reach cfg now seeds clients b0) (hp0 : b0.g.acks[h]? = some .pending) (hI0 : I b0) (hrun : LRun D b0 b)
+    (hrunning : b.g.shutting = false) :
+    (b.g.acks[h]? = some .pending → I b) ∧ (b.g.acks[h]? = some .accepted → E b) := by
+  induction hrun with
+  | refl => exact ⟨fun _ => hI0, fun ha => by rw [hp0] at ha; cases ha⟩
+  | @step b1 b' a o o' hq hs hd ih =>
+    have hr1 := hq.reach hr0
+    obtain ⟨i1, i2⟩ := ih (stepB_running_before hs hrunning)
+    obtain ⟨x, hx⟩ : ∃ x, b1.g.acks[h]? = some x := by
+      have hlt : h < b1.g.acks.length := Nat.lt_of_lt_of_le (lt_of_getElem?_some hp0) (hq.acks_len hr0)
+      exact ⟨b1.g.acks[h], by simp [hlt]⟩
+    by_cases hpx : x = .pending
+    · subst hpx
+      exact hl.inCmd hr1 hrunning (i1 hx) hx hs hd
+    · have hkeep := (C11_layerB_acks_grow (hinv_reach hr1) hs).2 h x hx hpx
+      constructor
+      · intro hp'; rw [hkeep] at hp'; simp only [Option.some.injEq] at hp'; exact absurd hp' hpx
+      · intro ha'
+        rw [hkeep] at ha'; simp only [Option.some.injEq] at ha'; subst ha'
+        exact hl.after hr1 hrunning (i2 hx) hx hs hd
+
+/-- **C12 (the interface between the acknowledgement and the cache, at Layer B).**
+    The worker has just taken the command `cmd` with handle `h`.  Along EVERY run of Layer B from there — any
+    interleaving of any threads — that contains, once the effect is in place, no action aimed at the key / the key id
+    (`cmdDisturbs`: the named actions), with the cache still running:
+    `acks[h] = Accepted` ⇒ the command's effect clause holds in the current state.
+    (The effect is established by the worker's actions BEFORE or IN the answering action, sections 2–4, and kept by
+    every other action since.) -/
+theorem C12_layerB_answered_accepted_implies_effect {cfg : Cfg} {now : Nat} {seeds : List Nat} {clients : Nat}
+    {cmd : Cmd} {h : Nat} {b0 b : BState} (hr0 : Reach cfg now seeds clients b0) (hw0 : b0.w = cmdFirstPos cmd h)
+    (hcmd : cmd ≠ .shutdown) (hrun : LRun (cmdDisturbs cmd h) b0 b) (hrunning : b.g.shutting = false)
+    (ha : b.g.acks[h]? = some .accepted) : CmdEffect cmd h b := by
+  have hheld : b0.w.held = some h := by
+    rw [hw0]; cases cmd <;> first | rfl | exact absurd rfl hcmd
+  exact (ackLink_lrun (ackLink_cmd cmd h hcmd) hr0 ((hinv_reach hr0).held h hheld).1 (cmdInv_first hcmd hw0) hrun
+    hrunning).2 ha
+
+/-! ## 6  acknowledgements answered ON THE SPOT by the caller -/
+
+/-- **C12 (spot answer of a put): `Rejected(KeyAlreadyExists)` on the spot means the key is present NOW.**
+    The caller-side check `store.present` of a put that creates an acknowledgement on the spot: the new cell holds
+    `Rejected(KeyAlreadyExists)`, the store holds an entry for the key in that very state (before and after the action),
+    and nothing else changes — no id is drawn, nothing is sent, store, ledger and index are untouched. -/
+theorem C12_layerB_spot_put_exists {b b' : BState} {i k v : Nat} {w : Int} {ttl : Option Nat} {o o' : Oracle}
+    (hpc : b.cl[i]? = some (.putPresent k v w ttl)) (hs : stepB b (.client i) o = .ok (b', o'))
+    (hnew : b'.g.acks.length = b.g.acks.length + 1) :
+    ∃ e, b.g.store.get? k = some e ∧ b'.g.store.get? k = some e ∧
+      b'.g.acks = b.g.acks ++ [.rejected .keyAlreadyExists] ∧
+      b'.g.store = b.g.store ∧ b'.g.adm = b.g.adm ∧ b'.g.ttl = b.g.ttl ∧ b'.g.queue = b.g.queue ∧
+      b'.g.nextId = b.g.nextId := by
+  cases hk : b.g.store.get? k with
+  | none =>
+    have := C07_layerB_absent_not_refused.1 hpc hk hs
+    subst this
+    simp [setClient] at hnew
+  | some e =>
+    obtain ⟨_, rfl, _⟩ := C07_layerB_present_refused_client hpc hk hs
+    exact ⟨e, rfl, hk, rfl, rfl, rfl, rfl, rfl, rfl⟩
+
+/-- **C12 (after shutdown): a write issued after the flag is set gets NO acknowledgement** — `put`, `delete` and
+    `put_or_update` return `Err(CommandSendError)` in their first action; no cell is created, nothing is sent, nothing
+    changes. -/
+theorem C12_layerB_spot_after_shutdown {b b' : BState} {i : Nat} {r : Req} {o o' : Oracle} (hsh : b.g.shutting = true)
+    (hpc : b.cl[i]? = some (.start r))
+    (hwrite : (∃ k v w ttl, r = .putW k v w ttl) ∨ (∃ k, r = .delete k) ∨ (∃ k v w ttl rm, r = .upsert k v w ttl rm))
+    (hs : stepB b (.client i) o = .ok (b', o')) :
+    b' = finishCall b i .err ∧ b'.g = b.g ∧ b'.res = b.res.set i (.err :: b.res.getD i []) := by
+  have h1 : r ≠ .weight := by rcases hwrite with ⟨_, _, _, _, rfl⟩ | ⟨_, rfl⟩ | ⟨_, _, _, _, _, rfl⟩ <;> simp
+  have h2 : r ≠ .shutdown := by rcases hwrite with ⟨_, _, _, _, rfl⟩ | ⟨_, rfl⟩ | ⟨_, _, _, _, _, rfl⟩ <;> simp
+  have h3 : refusal r = .err := by rcases hwrite with ⟨_, _, _, _, rfl⟩ | ⟨_, rfl⟩ | ⟨_, _, _, _, _, rfl⟩ <;> rfl
+  have := C13_layerB_refuses o hsh hpc h1 h2
+  rw [h3] at this
+  have hs' : clientAct b i o = .ok (b', o') := hs
+  rw [this] at hs'
+  simp only [Except.ok.injEq, Prod.mk.injEq] at hs'
+  obtain ⟨rfl, _⟩ := hs'
+  exact ⟨rfl, rfl, rfl⟩
+
+/-- the tail of `put_or_update` answers on the spot exactly when no weight is due -/
+theorem ack_upAfterIndex_spot {b : BState} {i id : Nat} {uw : Option Int}
+    (hnew : (upAfterIndex b i id uw).g.acks.length = b.g.acks.length + 1) :
+    uw = none ∧ upAfterIndex b i id uw = spotFinish b i .accepted := by
+  cases uw with
+  | none => exact ⟨rfl, rfl⟩
+  | some x =>
+    simp only [upAfterIndex] at hnew
+    split at hnew
+    · simp [finishCall] at hnew
+    · split at hnew
+      · simp [finishCall] at hnew
+      · simp [setClient] at hnew
+
+/-- **C12 (spot answer of `put_or_update`): `Accepted` on the spot means NO WEIGHT IS DUE.**
+    A client inside a `put_or_update` that read the key id `id` (its `upsert.update` has already written value and
+    deadline into the stored entry) creates an acknowledgement on the spot: the cell holds `Accepted`; the call carries
+    no weight (`uw = none`: neither a weight nor a value was given, and the deadline change is not of a kind that alters
+    the weight of a CHARGED id — or the id was not charged at `upsert.weight_of`, fix c86efeb); the index action of this
+    very step (if any) is done — the index has been brought up to date with the deadline this call wrote; NO
+    `UpdateWeight` is sent; store and ledger are untouched by the action. -/
+theorem C12_layerB_spot_upsert_accepted {b b' : BState} {i id : Nat} {pc : CPc} {o o' : Oracle}
+    (hpc : b.cl[i]? = some pc) (hid : pc.usedId? = some id) (hs : stepB b (.client i) o = .ok (b', o'))
+    (hnew : b'.g.acks.length = b.g.acks.length + 1) :
+    b'.g.acks = b.g.acks ++ [.accepted] ∧ b'.g.store = b.g.store ∧ b'.g.adm = b.g.adm ∧ b'.g.queue = b.g.queue ∧
+    ((∃ old new, pc = .upWeightOf id none old new ∧ typeOfExpiryUpdate old new = .nothing ∧ b'.g.ttl = b.g.ttl) ∨
+     (∃ e, pc = .upTtlPut id e none ∧ b'.g.ttl = b.g.ttl.set (shardOf b.g.cfg e, id) e) ∨
+     (∃ e, pc = .upTtlDelete id e none ∧ b'.g.ttl = b.g.ttl.del (shardOf b.g.cfg e, id)) ∨
+     (∃ e, pc = .upTtlInsert id e none ∧ b'.g.ttl = b.g.ttl.set (shardOf b.g.cfg e, id) e)) := by
+  have hs' : clientAct b i o = .ok (b', o') := hs
+  cases pc <;> simp only [CPc.usedId?, Option.some.injEq, reduceCtorEq] at hid
+  all_goals subst hid
+  case upWeightOf id uw old new =>
+    simp only [clientAct, hpc] at hs'
+    split at hs'
+    all_goals simp only [Except.ok.injEq, Prod.mk.injEq] at hs'
+    all_goals obtain ⟨rfl, rfl⟩ := hs'
+    · simp [setClient] at hnew
+    · simp [setClient] at hnew
+    · simp [setClient] at hnew
+    · rename_i hty
+      obtain ⟨rfl, he⟩ := ack_upAfterIndex_spot hnew
+      rw [he]
+      exact ⟨rfl, rfl, rfl, rfl, Or.inl ⟨_, _, rfl, hty, rfl⟩⟩
+  case upTtlPut id e uw =>
+    simp only [clientAct, hpc] at hs'
+    split at hs'
+    · cases hs'
+    · simp only [Except.ok.injEq, Prod.mk.injEq] at hs'
+      obtain ⟨rfl, rfl⟩ := hs'
+      obtain ⟨rfl, he⟩ := ack_upAfterIndex_spot (b := { b with g := ttlPut b.g id e }) hnew
+      rw [he]
+      exact ⟨rfl, rfl, rfl, rfl, Or.inr (Or.inl ⟨_, rfl, rfl⟩)⟩
+  case upTtlDelete id e uw =>
+    simp only [clientAct, hpc] at hs'
+    split at hs'
+    · cases hs'
+    · simp only [Except.ok.injEq, Prod.mk.injEq] at hs'
+      obtain ⟨rfl, rfl⟩ := hs'
+      obtain ⟨rfl, he⟩ := ack_upAfterIndex_spot (b := { b with g := ttlDelete b.g id e }) hnew
+      rw [he]
+      exact ⟨rfl, rfl, rfl, rfl, Or.inr (Or.inr (Or.inl ⟨_, rfl, rfl⟩))⟩
+  case upTtlRemove id old new uw =>
+    simp only [clientAct, hpc] at hs'
+    split at hs'
+    · cases hs'
+    · simp only [Except.ok.injEq, Prod.mk.injEq] at hs'
+      obtain ⟨rfl, rfl⟩ := hs'
+      simp [setClient, ttlDelete] at hnew
+  case upTtlInsert id e uw =>
+    simp only [clientAct, hpc] at hs'
+    split at hs'
+    · cases hs'
+    · simp only [Except.ok.injEq, Prod.mk.injEq] at hs'
+      obtain ⟨rfl, rfl⟩ := hs'
+      obtain ⟨rfl, he⟩ := ack_upAfterIndex_spot (b := { b with g := ttlPut b.g id e }) hnew
+      rw [he]
+      exact ⟨rfl, rfl, rfl, rfl, Or.inr (Or.inr (Or.inr ⟨_, rfl, rfl⟩))⟩
+
+/-- **C12 (spot answers, completeness): a client action creates an already-answered cell only in the two ways above.**
+    If an action of client `i` lengthens `acks` without lengthening the queue (it is not a send), the new cell holds
+    `Rejected(KeyAlreadyExists)` or `Accepted`, never `Pending`; no other cell changes. -/
+theorem C12_layerB_spot_answers {b b' : BState} {i : Nat} {o o' : Oracle} (hs : stepB b (.client i) o = .ok (b', o'))
+    (hnew : b'.g.acks.length = b.g.acks.length + 1) (hq : b'.g.queue = b.g.queue) :
+    b'.g.acks = b.g.acks ++ [.rejected .keyAlreadyExists] ∨ b'.g.acks = b.g.acks ++ [.accepted] := by
+  have ht := clientAct_trans (show clientAct b i o = .ok (b', o') from hs)
+  have hspot : ∀ (b0 : BState) (id : Nat) (uw : Option Int), b' = upAfterIndex b0 i id uw → b0.g.acks = b.g.acks →
+      b'.g.acks = b.g.acks ++ [.rejected .keyAlreadyExists] ∨ b'.g.acks = b.g.acks ++ [.accepted] := by
+    intro b0 id uw he hacks
+    subst he
+    rw [← hacks] at hnew ⊢
+    rw [(ack_upAfterIndex_spot hnew).2]
+    exact Or.inr rfl
+  cases ht
+  case spot pc st hpc _ =>
+    cases pc <;> simp only [stepB, clientAct, hpc] at hs
+    case putPresent k v w ttl =>
+      split at hs
+      · simp only [Except.ok.injEq, Prod.mk.injEq] at hs
+        rw [← hs.1]; exact Or.inl rfl
+      · simp only [Except.ok.injEq, Prod.mk.injEq] at hs
+        have := congrArg (fun x => x.g.acks.length) hs.1
+        simp [setClient, spotFinish, finishCall] at this
+    all_goals (repeat' split at hs)
+    all_goals (try (cases hs; done))
+    all_goals simp only [Except.ok.injEq, Prod.mk.injEq] at hs
+    all_goals have hlen := congrArg (fun x => x.g.acks.length) hs.1
+    all_goals (try (simp [setClient, spotFinish, finishCall] at hlen; done))
+    all_goals first
+      | exact hspot _ _ _ hs.1.symm rfl
+      | (simp [setClient, ttlDelete, spotFinish, finishCall] at hlen; done)
+      | (rename_i heq; rw [poolAdd_frame heq] at hlen; simp [spotFinish, finishCall] at hlen; done)
+      | skip
+    all_goals
+      rename_i heq
+      unfold sendAct at heq
+      simp only [] at heq
+      split at heq
+      · simp only [Except.ok.injEq] at heq; subst heq
+        simp [spotFinish, finishCall] at hlen
+      · split at heq
+        · cases heq
+        · simp only [Except.ok.injEq] at heq; subst heq
+          have hq' := congrArg (fun x => x.g.queue.length) hs.1
+          simp [spotFinish, finishCall] at hq'
+  case upAfterSame id uw old new hpc => exact hspot b id uw rfl rfl
+  case upAfterPut pc id e uw hpc hu hfree => exact hspot _ id uw rfl rfl
+  case upAfterDelete id e uw hpc hfree => exact hspot _ id uw rfl rfl
+  case sendOk cmd hpc => simp [finishCall] at hq
+  case getPool hp => rw [poolAdd_frame hp] at hnew; simp [finishCall] at hnew
+  case refPool hp => rw [poolAdd_frame hp] at hnew; simp [finishCall] at hnew
+  case shutLocal hg => rw [hg] at hnew; simp [setClient] at hnew
+  case mgetStep hg => rw [hg] at hnew; simp [setClient] at hnew
+  case mgetFin hg => rw [hg] at hnew; simp [finishCall] at hnew
+  all_goals simp [finishCall, setClient, ttlDelete] at hnew
+
+/-! ## 7  concrete interleavings: non-vacuity, and the runs behind the `_counterexample`s
+
+  All on `cfgEx` (capacity 10, one expiry shard, `counters := 2`), two clients, from `b0Ex` (Order.lean). -/
+
+theorem ack_reach_run {l : List (Act × Oracle)} {b : BState} (h : runB b0Ex l = .ok b) :
+    Reach cfgEx 0 [1, 2, 3, 4] 2 b := reach_runB _ b0Ex_reach h
+
+/-! ### (1) put without time-to-live, answered while another client's read is in the middle of its call -/
+
+/-- client 0 runs `put(1 ↦ 100, weight 3)` up to its send; client 1 issues `get(1)` and runs its first action (it now
+    stands at `store.get`, in the MIDDLE of its call); the worker takes the put and runs it up to `store.put` -/
+def ackPutRun : List (Act × Oracle) :=
+  call 0 (.putW 1 100 3 none) 4 ++ [(.issue 1 (.get 1), noO), (.client 1, noO)] ++ workerN 5
+
+/-- the hypotheses of `C12_layerB_put_effect_before_ack` are satisfied at a reachable state — with a read of the very key
+    in flight -/
+theorem C12_layerB_put_effect_witness :
+    ∃ b b' c, Reach cfgEx 0 [1, 2, 3, 4] 2 b ∧ b.g.shutting = false ∧ b.w.cmd? = some c ∧ c.h = some 0 ∧ c.ttl = none ∧
+      stepB b .worker noO = .ok (b', noO) ∧ b'.g.acks[0]? = some .accepted ∧ b.cl[1]? = some (.getStore 1) ∧
+      PutEffect b' c none := by
+  have hrun : ∃ b, runB b0Ex ackPutRun = .ok b ∧ b.g.shutting = false ∧
+      b.w.cmd? = some ⟨1, 1, 3, 1, 100, none, some 0⟩ ∧ b.cl[1]? = some (.getStore 1) ∧
+      ∃ b', stepB b .worker noO = .ok (b', noO) ∧ b'.g.acks[0]? = some .accepted :=
+    ⟨_, rfl, rfl, rfl, rfl, _, rfl, by decide⟩
+  obtain ⟨b, hr, h1, h2, h3, b', h4, h5⟩ := hrun
+  exact ⟨b, b', _, ack_reach_run hr, h1, h2, rfl, rfl, h4, h5, h3,
+    (C12_layerB_put_effect_before_ack (ack_reach_run hr) h1 h2 rfl rfl h4 h5).2.2.2.2.1⟩
+
+/-- … and in numbers: before the answering action the cell is pending and the key absent; after it the cell holds
+    `Accepted`, the store holds `(100, id 1, no deadline, not deleted)`, id 1 is charged with 3, the total is 3.
+    The reader's lookup run AFTER the answering action hits and the call returns `Some(100)`; the same lookup run
+    BEFORE it misses. -/
+example :
+    (match runB b0Ex ackPutRun with
+     | .ok b =>
+       (match stepB b .worker noO with
+        | .ok (b', _) =>
+          decide (b.g.acks = [.pending] ∧ b.g.store.get? 1 = none ∧ b'.g.acks = [.accepted] ∧
+                  b'.g.store.get? 1 = some ⟨100, 1, none, false⟩ ∧ b'.g.adm.kw.get? 1 = some ⟨1, 1, 3⟩ ∧
+                  b'.g.adm.used = 3 ∧ b'.g.ttl = []) &&
+          (match runB b' [(.client 1, noO), (.client 1, { pool := [0] })] with
+           | .ok b2 => (match b2.res[1]? with | some (Out.value (some v) :: _) => v == 100 | _ => false)
+           | _ => false) &&
+          (match runB b [(.client 1, noO)] with
+           | .ok b2 => (match b2.res[1]? with | some (Out.value none :: _) => true | _ => false)
+           | _ => false)
+        | _ => false)
+     | _ => false) = true := by decide
+
+/-! ### (1) put rejected: `KeyAlreadyExists` (worker side), `TooHeavy`, `NoSpace` after an eviction (O5) -/
+
+/-- two clients race `put(1)`: both pass the caller-side check, the worker stores the first and answers the second
+    `KeyAlreadyExists` — the store, the ledger and the total are what the first put left -/
+example :
+    (match runB b0Ex (putRaceChecks ++ putRaceSends ++ workerN 7) with
+     | .ok b =>
+       (match b.w, stepB b .worker noO with
+        | .present c, .ok (b', _) =>
+          decide (c.h = some 1 ∧ b.w.cmd? = some c ∧ b.g.acks[1]? = some .pending ∧
+                  b'.g.acks[1]? = some (.rejected .keyAlreadyExists) ∧ b.g.store.contains c.k = true ∧
+                  b'.g.store = b.g.store ∧ b'.g.adm.kw = b.g.adm.kw ∧ b'.g.adm.used = b.g.adm.used ∧
+                  b'.g.ttl = b.g.ttl ∧ b'.g.adm.kw.get? c.id = none)
+        | _, _ => false)
+     | _ => false) = true := by decide
+
+/-- a put heavier than the cache: `TooHeavy`, nothing changes -/
+example :
+    (match runB b0Ex (call 0 (.putW 1 7 11 none) 4 ++ workerN 1) with
+     | .ok b =>
+       (match b.w, stepB b .worker noO with
+        | .present c, .ok (b', _) =>
+          decide (c.h = some 0 ∧ b'.g.acks[0]? = some (.rejected .tooHeavy) ∧ b.g.store.get? c.k = none ∧
+                  b'.g.store = b.g.store ∧ b'.g.adm.kw = b.g.adm.kw ∧ b'.g.adm.used = b.g.adm.used ∧
+                  c.w > b.g.adm.max)
+        | _, _ => false)
+     | _ => false) = true := by decide
+
+/-- buffers of one record, so that one access record of key 3 reaches the sketch -/
+def ackInit1 : BState := BState.init { cfgEx with bufSize := 1 } 0 [1, 2, 3, 4] 2
+
+def ackHit3 : List (Act × Oracle) :=
+  [(.issue 0 (.get 3), noO), (.client 0, noO), (.client 0, noO), (.client 0, { pool := [0] })]
+
+/-- keys 1 and 3 (weight 1 each, ids 1 and 2) are in; key 3 is read twice and the consumer counts one access;
+    `put(2, weight 10)` does not fit (free space 8): the worker samples both ids, pops id 1 (estimate 0, not above the
+    incoming key's 0) and EVICTS it — `kw.remove`, `wu.sub`, `store.remove` — re-reads the space (9 < 10), … -/
+def ackNoSpaceRun : List (Act × Oracle) :=
+  call 0 (.putW 1 100 1 none) 4 ++ workerN 6 ++ call 0 (.putW 3 300 1 none) 4 ++ workerN 6 ++
+  ackHit3 ++ ackHit3 ++ [(.consumer, { dkAdd := [true] })] ++ call 1 (.putW 2 200 10 none) 4 ++
+  [(.worker, noO), (.worker, noO), (.worker, { dk := [false] }),
+   (.worker, { dk := [false, true], ids := [1, 2], pops := [some 1] }),
+   (.worker, noO), (.worker, noO), (.worker, noO), (.worker, noO)]
+
+/-- … pops id 2 (key 3, estimate 1 > 0) and gives up: the cell is answered `NoSpace`.  The answering action changes
+    nothing; the command's id 3 is neither charged, stored nor indexed — but key 1, evicted EARLIER in the loop, stays
+    evicted (observation O5): the store and the total are NOT what they were when the command was taken. -/
+example :
+    (match runB ackInit1 ackNoSpaceRun with
+     | .ok b =>
+       (match b.w, stepB b .worker { pops := [some 2] } with
+        | .fill c _ _ _, .ok (b', _) =>
+          decide (c.h = some 2 ∧ c.id = 3 ∧ b.g.acks[2]? = some .pending ∧
+                  b'.g.acks[2]? = some (.rejected .noSpace) ∧
+                  b'.g.store = b.g.store ∧ b'.g.adm.kw = b.g.adm.kw ∧ b'.g.adm.used = b.g.adm.used ∧
+                  b'.g.adm.kw.get? 3 = none ∧ b'.g.store.get? 2 = none ∧
+                  b'.g.store.get? 1 = none ∧ b'.g.adm.kw.get? 1 = none ∧ b'.g.adm.used = 1 ∧
+                  b'.g.store.get? 3 = some ⟨300, 2, none, false⟩)
+        | _, _ => false)
+     | _ => false) = true := by decide
+
+/-! ### (1) put with a time-to-live -/
+
+/-- `put(1 ↦ 100, weight 3, ttl 50)`: the worker stands at `store.put` -/
+def ackTtlRun : List (Act × Oracle) := call 0 (.putW 1 100 3 (some 50)) 4 ++ workerN 5
+
+/-- between `store.put` and `ttl.put`: a whole `get(1)` of client 1 (which already SEES the entry), a clock move, the
+    sweeper's `sweep.begin` (the shard is empty) — none of them aimed at key 1 / id 1 -/
+def ackTtlTraffic : List (Act × Oracle) :=
+  [(.issue 1 (.get 1), noO), (.client 1, noO), (.client 1, noO), (.advance 7, noO), (.client 1, { pool := [0] }),
+   (.sweeper none, noO)]
+
+/-- the hypotheses of `C12_layerB_put_ttl_effect_before_ack` are satisfiable, with traffic in the window -/
+theorem C12_layerB_put_ttl_effect_witness :
+    ∃ b0 b1 b b' c, Reach cfgEx 0 [1, 2, 3, 4] 2 b0 ∧ b0.w = .storePut c ∧ c.h = some 0 ∧ c.ttl = some 50 ∧
+      stepB b0 .worker noO = .ok (b1, noO) ∧ Undisturbed c.k c.id b1 b ∧ stepB b .worker noO = .ok (b', noO) ∧
+      b'.g.shutting = false ∧ b.g.now = 7 ∧ PutEffect b' c (some 50) := by
+  have hrun : ∃ b0, runB b0Ex ackTtlRun = .ok b0 ∧ b0.w = .storePut ⟨1, 1, 3, 1, 100, some 50, some 0⟩ ∧
+      b0.g.now + 50 = 50 ∧
+      ∃ b1, stepB b0 .worker noO = .ok (b1, noO) ∧ ∃ b, undisturbedRun 1 1 b1 ackTtlTraffic = some b ∧
+      ∃ b', stepB b .worker noO = .ok (b', noO) ∧ b'.g.shutting = false ∧ b.g.now = 7 :=
+    ⟨_, rfl, rfl, rfl, _, rfl, _, rfl, _, rfl, rfl, rfl⟩
+  obtain ⟨b0, hr, hw, hn, b1, h1, b, h2, b', h3, h4, h5⟩ := hrun
+  have hq := (undisturbed_of_run _ _ _ h2).1
+  have he := (C12_layerB_put_ttl_effect_before_ack (ack_reach_run hr) hw rfl rfl h1 hq h3 h4).2.2.2.2.2.2.1
+  rw [hn] at he
+  exact ⟨b0, b1, b, b', _, ack_reach_run hr, hw, rfl, rfl, h1, hq, h3, h4, h5, he⟩
+
+/-- … in numbers: the reader inside the window got `Some(100)` BEFORE the acknowledgement was answered; at the answer
+    the store holds `(100, id 1, deadline 0 + 50)`, id 1 is charged with 3, the index holds `(0, 1) ↦ 50` -/
+example :
+    (match runB b0Ex (ackTtlRun ++ workerN 1 ++ ackTtlTraffic) with
+     | .ok b =>
+       (match b.res[1]? with | some (Out.value (some v) :: _) => v == 100 | _ => false) &&
+       (match stepB b .worker noO with
+        | .ok (b', _) =>
+          decide (b.g.acks = [.pending] ∧ b'.g.acks = [.accepted] ∧ b'.g.store.get? 1 = some ⟨100, 1, some 50, false⟩ ∧
+                  b'.g.adm.kw.get? 1 = some ⟨1, 1, 3⟩ ∧ b'.g.adm.used = 3 ∧ b'.g.ttl.get? (0, 1) = some 50 ∧
+                  b.g.ttl = [])
+        | _ => false)
+     | _ => false) = true := by decide
+
+/-- **FINDING (benign): the full effect clause is FALSE for a put with a time-to-live** — `store.put` and the answer are
+    two actions (`ttl.put` lies between them), and the entry is visible to the other threads in between.
+    `put(1, ttl 50)` of client 0 is at `ttl.put`; client 1's `delete(1)` runs `delete.mark` (the entry is soft-deleted);
+    the worker's `ttl.put` answers the put `Accepted`.  In that state the stored entry is marked deleted: `PutEffect`
+    fails, and a `get(1)` issued AFTER the acknowledgement returns `None`.
+    (Linearizable — the concurrent `delete` takes effect after the put — but "Accepted ⇒ a following get sees the value"
+    needs the absence of concurrent operations on the key: `C12_layerB_put_ttl_effect_before_ack`.) -/
+theorem C12_layerB_put_ttl_effect_before_ack_counterexample :
+    ∃ b b' c e, Reach cfgEx 0 [1, 2, 3, 4] 2 b ∧ b.g.shutting = false ∧ b.w = .ttlPut c e ∧ c.h = some 0 ∧
+      stepB b .worker noO = .ok (b', noO) ∧ b.g.acks[0]? = some .pending ∧ b'.g.acks[0]? = some .accepted ∧
+      b'.g.store.get? c.k = some ⟨c.v, c.id, some e, true⟩ ∧ ¬ PutEffect b' c (some e) ∧
+      (match runB b' (call 0 (.get c.k) 2) with
+       | .ok b2 => (match b2.res[0]? with | some (Out.value none :: _) => true | _ => false)
+       | _ => false) = true := by
+  have hrun : ∃ b, runB b0Ex (ackTtlRun ++ workerN 1 ++ call 1 (.delete 1) 2) = .ok b ∧ b.g.shutting = false ∧
+      b.w = .ttlPut ⟨1, 1, 3, 1, 100, some 50, some 0⟩ 50 ∧ b.g.acks[0]? = some .pending ∧
+      ∃ b', stepB b .worker noO = .ok (b', noO) ∧ b'.g.acks[0]? = some .accepted ∧
+        b'.g.store.get? 1 = some ⟨100, 1, some 50, true⟩ ∧
+        (match runB b' (call 0 (.get 1) 2) with
+         | .ok b2 => (match b2.res[0]? with | some (Out.value none :: _) => true | _ => false)
+         | _ => false) = true :=
+    ⟨_, rfl, rfl, rfl, by decide, _, rfl, by decide, by decide, by decide⟩
+  obtain ⟨b, hr, h1, h2, h3, b', h4, h5, h6, h7⟩ := hrun
+  refine ⟨b, b', _, _, ack_reach_run hr, h1, h2, rfl, h4, h3, h5, h6, ?_, h7⟩
+  intro he
+  have := he.stored
+  rw [h6] at this
+  cases this
+
+/-- **FINDING (benign), second run: `Accepted` answered while the key is NEITHER STORED NOR CHARGED.**
+    In the same window client 1's `put_or_update(1, ttl 5)` shortens the stored deadline to 5 and indexes it; the clock
+    moves to 10; the sweeper's tick finds the entry due, re-validates it against the store (expired by its own deadline)
+    and evicts it — ledger, total, store.  Then the worker's `ttl.put` answers the put `Accepted` and leaves the stale
+    index entry `(0, 1) ↦ 50` behind.  Only the unconditional clauses of
+    `C12_layerB_put_ttl_effect_before_ack_partial` hold. -/
+theorem C12_layerB_put_ttl_effect_before_ack_counterexample_swept :
+    ∃ b b' c e, Reach cfgEx 0 [1, 2, 3, 4] 2 b ∧ b.g.shutting = false ∧ b.w = .ttlPut c e ∧ c.h = some 0 ∧
+      stepB b .worker noO = .ok (b', noO) ∧ b.g.acks[0]? = some .pending ∧ b'.g.acks[0]? = some .accepted ∧
+      b'.g.store.get? c.k = none ∧ b'.g.adm.kw.get? c.id = none ∧ b'.g.adm.used = 0 ∧
+      b'.g.ttl.get? (shardOf b'.g.cfg e, c.id) = some e := by
+  have hrun : ∃ b, runB b0Ex (ackTtlRun ++ workerN 1 ++ call 1 (.upsert 1 none none (some 5) false) 5 ++
+        [(.advance 10, noO), (.sweeper none, noO), (.sweeper (some 1), noO), (.sweeper none, noO),
+         (.sweeper none, noO), (.sweeper none, noO)]) = .ok b ∧ b.g.shutting = false ∧
+      b.w = .ttlPut ⟨1, 1, 3, 1, 100, some 50, some 0⟩ 50 ∧ b.g.acks[0]? = some .pending ∧
+      ∃ b', stepB b .worker noO = .ok (b', noO) ∧ b'.g.acks[0]? = some .accepted ∧
+        b'.g.store.get? 1 = none ∧ b'.g.adm.kw.get? 1 = none ∧ b'.g.adm.used = 0 ∧
+        b'.g.ttl.get? (shardOf b'.g.cfg 50, 1) = some 50 :=
+    ⟨_, rfl, rfl, rfl, by decide, _, rfl, by decide, by decide, by decide, by decide, by decide⟩
+  obtain ⟨b, hr, h1, h2, h3, b', h4, h5, h6, h7, h8, h9⟩ := hrun
+  exact ⟨b, b', _, _, ack_reach_run hr, h1, h2, rfl, h4, h3, h5, h6, h7, h8, h9⟩
+
+/-! ### (2) delete -/
+
+/-- an executable check of `InCmd`: run the actions, checking after each that the worker is still busy -/
+def inCmdRun (b : BState) : List (Act × Oracle) → Option BState
+  | [] => some b
+  | (a, o) :: rest =>
+    match stepB b a o with
+    | .ok (b', _) => if b'.w.busy then inCmdRun b' rest else none
+    | .error _ => none
+
+theorem inCmd_of_run : ∀ (l : List (Act × Oracle)) (b b' : BState), inCmdRun b l = some b' → InCmd b b' := by
+  intro l
+  induction l with
+  | nil =>
+    intro b b' h
+    simp only [inCmdRun, Option.some.injEq] at h
+    subst h
+    exact .refl _
+  | cons x l ih =>
+    intro b b' h
+    obtain ⟨a, o⟩ := x
+    simp only [inCmdRun] at h
+    split at h
+    · rename_i b1 o1 hs
+      split at h
+      · rename_i hb
+        have hq := ih b1 b' h
+        clear h ih
+        induction hq with
+        | refl => exact .step (.refl _) hs hb
+        | step _ hs2 hb2 ih2 => exact .step ih2 hs2 hb2
+      · cases h
+    · cases h
+
+/-- `put(1 ↦ 100, weight 3, ttl 50)` is in; client 1's `delete(1)` is sent and the worker has taken it: it stands at
+    `store.remove` of `Delete(1)`, handle 1 -/
+def ackDelRun : List (Act × Oracle) :=
+  call 0 (.putW 1 100 3 (some 50)) 4 ++ workerN 7 ++ call 1 (.delete 1) 3 ++ workerN 1
+
+/-- inside the command, interleaved with the worker's `kw.remove` and `wu.sub`: a whole `get(1)` of client 0 (it
+    misses: the key is gone) and a clock move -/
+def ackDelMid : List (Act × Oracle) :=
+  [(.issue 0 (.get 1), noO), (.client 0, noO), (.client 0, noO), (.worker, noO), (.advance 3, noO), (.worker, noO)]
+
+/-- the hypotheses of `C04_layerB_delete_effect_before_ack` are satisfiable (the answering action is `ttl.delete`) -/
+theorem C04_layerB_delete_effect_witness :
+    ∃ b0 b1 b b', Reach cfgEx 0 [1, 2, 3, 4] 2 b0 ∧ b0.w = .delStore 1 (some 1) ∧
+      stepB b0 .worker noO = .ok (b1, noO) ∧ InCmd b1 b ∧ stepB b .worker noO = .ok (b', noO) ∧
+      b'.g.shutting = false ∧ b'.g.acks[1]? = some .accepted ∧ b.g.now = 3 := by
+  have hrun : ∃ b0, runB b0Ex ackDelRun = .ok b0 ∧ b0.w = .delStore 1 (some 1) ∧
+      ∃ b1, stepB b0 .worker noO = .ok (b1, noO) ∧ ∃ b, inCmdRun b1 ackDelMid = some b ∧
+      ∃ b', stepB b .worker noO = .ok (b', noO) ∧ b'.g.shutting = false ∧ b'.g.acks[1]? = some .accepted ∧
+        b.g.now = 3 :=
+    ⟨_, rfl, rfl, _, rfl, _, rfl, _, rfl, rfl, by decide, rfl⟩
+  obtain ⟨b0, hr, hw, b1, h1, b, h2, b', h3, h4, h5, h6⟩ := hrun
+  exact ⟨b0, b1, b, b', ack_reach_run hr, hw, h1, inCmd_of_run _ _ _ h2, h3, h4, h5, h6⟩
+
+/-- … in numbers: when the cell is answered the key is absent, id 1 is not charged, the total is 0, the index entry
+    `(0, 1)` is gone; the `get(1)` that ran inside the command returned `None`; a following `put(1)` is taken in under a
+    new id (2) by admission alone. -/
+example :
+    (match runB b0Ex (ackDelRun ++ workerN 1 ++ ackDelMid) with
+     | .ok b =>
+       (match b.res[0]? with | some (Out.value none :: _) => true | _ => false) &&
+       (match stepB b .worker noO with
+        | .ok (b', _) =>
+          decide (b.g.acks = [.accepted, .pending] ∧ b'.g.acks = [.accepted, .accepted] ∧ b'.g.store.get? 1 = none ∧
+                  b'.g.adm.kw.get? 1 = none ∧ b'.g.adm.used = 0 ∧ b'.g.ttl.get? (0, 1) = none ∧
+                  b.g.ttl.get? (0, 1) = some 50) &&
+          (match runB b' (call 0 (.putW 1 111 2 none) 4 ++ workerN 6) with
+           | .ok b2 => decide (b2.g.acks = [.accepted, .accepted, .accepted] ∧
+                               b2.g.store.get? 1 = some ⟨111, 2, none, false⟩ ∧ b2.g.adm.kw.get? 2 = some ⟨1, 1, 2⟩ ∧
+                               b2.g.adm.used = 2)
+           | _ => false)
+        | _ => false)
+     | _ => false) = true := by decide
+
+/-- `delete(7)` of a key that is not there: `Rejected(KeyDoesNotExist)`, nothing changes -/
+example :
+    (match runB b0Ex (call 0 (.putW 1 100 3 none) 4 ++ workerN 6 ++ call 1 (.delete 7) 3 ++ workerN 1) with
+     | .ok b =>
+       (match b.w, stepB b .worker noO with
+        | .delStore k hh, .ok (b', _) =>
+          decide (k = 7 ∧ hh = some 1 ∧ b.g.store.get? 7 = none ∧ b.g.acks[1]? = some .pending ∧
+                  b'.g.acks[1]? = some (.rejected .keyDoesNotExist) ∧ b'.g.store = b.g.store ∧
+                  b'.g.adm.kw = b.g.adm.kw ∧ b'.g.adm.used = b.g.adm.used ∧ b'.g.ttl = b.g.ttl ∧
+                  b'.g.stats = b.g.stats)
+        | _, _ => false)
+     | _ => false) = true := by decide
+
+/-! ### (3) `UpdateWeight` -/
+
+def ackPutPlain : List (Act × Oracle) := call 0 (.putW 1 100 3 none) 4 ++ workerN 6
+
+/-- `put_or_update(1, weight 5)` of client 1 sends `UpdateWeight(id 1, 5)`; the worker's `kw.update` finds id 1 charged
+    with 3: in the answering state it is charged with 5 and the total went from 3 to 5 -/
+example :
+    (match runB b0Ex (ackPutPlain ++ call 1 (.upsert 1 none (some 5) none false) 4 ++ workerN 1) with
+     | .ok b =>
+       (match b.w, stepB b .worker noO with
+        | .update id w hh, .ok (b', _) =>
+          decide (id = 1 ∧ w = 5 ∧ hh = some 1 ∧ b.g.acks[1]? = some .pending ∧ b'.g.acks[1]? = some .accepted ∧
+                  b.g.adm.kw.get? 1 = some ⟨1, 1, 3⟩ ∧ b'.g.adm.kw.get? 1 = some ⟨1, 1, 5⟩ ∧ b.g.adm.used = 3 ∧
+                  b'.g.adm.used = 5 ∧ b'.g.store = b.g.store)
+        | _, _ => false)
+     | _ => false) = true := by decide
+
+/-- **the `Accepted` no-op** (O6 / D14): client 0's `put_or_update(1, weight 5)` is pre-empted just before its send;
+    client 1's `delete(1)` is sent first, then the `UpdateWeight`; the worker executes the `Delete` (accepted), then the
+    `UpdateWeight`: id 1 is not charged any more, the command changes nothing and is answered `Accepted` -/
+example :
+    (match runB b0Ex (ackPutPlain ++ call 0 (.upsert 1 none (some 5) none false) 3 ++ call 1 (.delete 1) 3 ++
+        [(.client 0, noO)] ++ workerN 5) with
+     | .ok b =>
+       (match b.w, stepB b .worker noO with
+        | .update id w hh, .ok (b', _) =>
+          decide (id = 1 ∧ w = 5 ∧ hh = some 2 ∧ b.g.acks = [.accepted, .accepted, .pending] ∧
+                  b'.g.acks = [.accepted, .accepted, .accepted] ∧ b.g.adm.kw.get? 1 = none ∧
+                  b'.g.adm.kw = b.g.adm.kw ∧ b'.g.adm.used = b.g.adm.used ∧ b'.g.adm.used = 0 ∧
+                  b'.g.store = b.g.store ∧ b'.g.stats = b.g.stats)
+        | _, _ => false)
+     | _ => false) = true := by decide
+
+/-! ### (4) acknowledgements answered on the spot -/
+
+/-- `put(1)` of a present key: `Rejected(KeyAlreadyExists)` on the spot, the key present in that very state, no id
+    drawn, nothing sent -/
+example :
+    (match runB b0Ex (ackPutPlain ++ call 1 (.putW 1 7 2 none) 1) with
+     | .ok b =>
+       (match b.cl[1]?, stepB b (.client 1) noO with
+        | some (CPc.putPresent k _ _ _), .ok (b', _) =>
+          decide (k = 1 ∧ b'.g.acks.length = b.g.acks.length + 1 ∧
+                  b'.g.acks = b.g.acks ++ [.rejected .keyAlreadyExists] ∧
+                  b'.g.store.get? 1 = some ⟨100, 1, none, false⟩ ∧ b'.g.store = b.g.store ∧
+                  b'.g.adm.kw = b.g.adm.kw ∧ b'.g.queue = b.g.queue ∧ b'.g.nextId = b.g.nextId)
+        | _, _ => false)
+     | _ => false) = true := by decide
+
+/-- `put_or_update(1, ttl 5)` — no weight, no value — on a key stored with deadline 50: the deadline is rewritten by
+    `upsert.update`, the index by `ttl.update.remove` / `ttl.update.insert`, and the last of them answers `Accepted` on
+    the spot: no weight is due, nothing is sent, the ledger is untouched -/
+example :
+    (match runB b0Ex (call 0 (.putW 1 100 3 (some 50)) 4 ++ workerN 7 ++ call 1 (.upsert 1 none none (some 5) false) 4) with
+     | .ok b =>
+       (match b.cl[1]?, stepB b (.client 1) noO with
+        | some (CPc.upTtlInsert id e uw), .ok (b', _) =>
+          decide (id = 1 ∧ e = 5 ∧ uw = none ∧ b'.g.acks = b.g.acks ++ [.accepted] ∧
+                  b'.g.store.get? 1 = some ⟨100, 1, some 5, false⟩ ∧ b'.g.store = b.g.store ∧
+                  b'.g.adm.kw = b.g.adm.kw ∧ b'.g.adm.used = b.g.adm.used ∧ b'.g.queue = b.g.queue ∧
+                  b'.g.ttl.get? (0, 1) = some 5)
+        | _, _ => false)
+     | _ => false) = true := by decide
+
+/-- after `shutdown()` has set the flag: `put` returns `Err`, no cell is created -/
+example :
+    (match runB b0Ex (call 1 .shutdown 2 ++ [(.issue 0 (.putW 1 7 2 none), noO)]) with
+     | .ok b =>
+       (match stepB b (.client 0) noO with
+        | .ok (b', _) =>
+          decide (b.g.shutting = true ∧ b'.g.acks = b.g.acks ∧ b'.g.queue = b.g.queue ∧ b'.g.store = b.g.store) &&
+          (match b'.res[0]? with | some (Out.err :: _) => true | _ => false)
+        | _ => false)
+     | _ => false) = true := by decide
+
+/-! ### (5) a run of the composed system -/
+
+/-- one step of a composed run -/
+inductive CAct where
+  | layer (a : Act) (o : Oracle)
+  | answer (o : Oracle)
+  | cell (a : AckB.Act)
+
+/-- an executable check of `AckRun` -/
+def ackRunCheck (h : Nat) (D : BState → Act → Bool) : BState × AckB.St → List CAct → Option (BState × AckB.St)
+  | x, [] => some x
+  | (b, s), .layer a o :: rest =>
+    (match stepB b a o with
+     | .ok (b', _) => if D b a = false ∧ b'.g.acks[h]? = b.g.acks[h]? then ackRunCheck h D (b', s) rest else none
+     | .error _ => none)
+  | (b, s), .answer o :: rest =>
+    (match stepB b .worker o, AckB.step s .setStatus with
+     | .ok (b', _), some s' =>
+       if D b .worker = false ∧ b.g.acks[h]? = some .pending ∧ b'.g.acks[h]? = some s.final ∧ s.final ≠ .pending then
+         ackRunCheck h D (b', s') rest
+       else none
+     | _, _ => none)
+  | (b, s), .cell a :: rest =>
+    (match AckB.step s a with
+     | some s' => if a ≠ .setStatus then ackRunCheck h D (b, s') rest else none
+     | none => none)
+
+theorem AckRun.trans {h : Nat} {D : BState → Act → Bool} {x y z : BState × AckB.St} (h1 : AckRun h D x y)
+    (h2 : AckRun h D y z) : AckRun h D x z := by
+  induction h2 with
+  | refl => exact h1
+  | layer _ hs hd hsame ih => exact .layer ih hs hd hsame
+  | answer _ hs hd hp hst hne hf hstep ih => exact .answer ih hs hd hp hst hne hf hstep
+  | cell _ ha hstep ih => exact .cell ih ha hstep
+
+theorem ackRun_of_check {h : Nat} {D : BState → Act → Bool} : ∀ (l : List CAct) (x y : BState × AckB.St),
+    ackRunCheck h D x l = some y → AckRun h D x y := by
+  intro l
+  induction l with
+  | nil =>
+    intro x y hc
+    simp only [ackRunCheck, Option.some.injEq] at hc
+    subst hc
+    exact .refl _
+  | cons a l ih =>
+    intro x y hc
+    obtain ⟨b, s⟩ := x
+    cases a with
+    | layer a o =>
+      simp only [ackRunCheck] at hc
+      split at hc
+      · rename_i b' o' hs
+        split at hc
+        · rename_i hcond
+          exact (AckRun.layer (.refl _) hs hcond.1 hcond.2).trans (ih _ _ hc)
+        · cases hc
+      · cases hc
+    | answer o =>
+      simp only [ackRunCheck] at hc
+      split at hc
+      · rename_i b' o' s' hs hstep
+        split at hc
+        · rename_i hcond
+          exact (AckRun.answer (.refl _) hs hcond.1 hcond.2.1 hcond.2.2.1 hcond.2.2.2 rfl hstep).trans (ih _ _ hc)
+        · cases hc
+      · cases hc
+    | cell a =>
+      simp only [ackRunCheck] at hc
+      split at hc
+      · rename_i s' hstep
+        split at hc
+        · rename_i hne
+          exact (AckRun.cell (.refl _) hne hstep).trans (ih _ _ hc)
+        · cases hc
+      · cases hc
+
+/-- The worker has taken `put(1 ↦ 100, weight 3)` (handle 0).  Composed run: poller 0 polls early (registers waker 7,
+    sees no flag: `Pending`); the worker runs the put while client 1 reads the key in between; its `store.put` answers
+    the cell — the slice's `setStatus` — ; `setFlag`; the poller polls again and gets `Ready(Accepted)`; the worker's
+    `wake`; meanwhile client 1's second `get(1)` is under way. -/
+def ackComposed : List CAct :=
+  [.cell (.lockRegister 0 7), .cell (.loadFlag 0),
+   .layer .worker noO, .layer (.issue 1 (.get 1)) noO, .layer .worker noO, .layer (.client 1) noO,
+   .layer .worker noO, .layer (.client 1) noO, .layer .worker noO,
+   .answer noO,
+   .cell .setFlag, .cell (.lockRegister 0 7), .layer (.issue 1 (.get 1)) noO, .cell (.loadFlag 0),
+   .layer (.client 1) noO, .cell (.finishPoll 0), .cell .wake, .layer (.client 1) noO]
+
+/-- the hypotheses of `C12_layerB_ready_accepted_implies_effect` are satisfiable: a composed run in which a poll has
+    returned `Ready(Accepted)` (after an earlier `Pending`), and the effect clause holds in the Layer B state reached -/
+theorem C12_layerB_ready_accepted_witness :
+    ∃ b0 b s q, Reach cfgEx 0 [1, 2, 3, 4] 2 b0 ∧ b0.w = cmdFirstPos (.put 1 1 3 1 100) 0 ∧
+      AckRun 0 (cmdDisturbs (.put 1 1 3 1 100) 0) (b0, AckB.init .accepted 1) (b, s) ∧ b.g.shutting = false ∧
+      q ∈ s.pollers ∧ q.results = [.ready .accepted, .pending] ∧ s.wakes = [7] ∧
+      CmdEffect (.put 1 1 3 1 100) 0 b := by
+  have hrun : ∃ b0, runB b0Ex (call 0 (.putW 1 100 3 none) 4 ++ workerN 1) = .ok b0 ∧
+      b0.w = cmdFirstPos (.put 1 1 3 1 100) 0 ∧
+      ∃ b s, ackRunCheck 0 (cmdDisturbs (.put 1 1 3 1 100) 0) (b0, AckB.init .accepted 1) ackComposed = some (b, s) ∧
+        b.g.shutting = false ∧ s.pollers = [⟨.idle, 7, [.ready .accepted, .pending]⟩] ∧ s.wakes = [7] :=
+    ⟨_, rfl, rfl, _, _, rfl, rfl, by decide, by decide⟩
+  obtain ⟨b0, hr, hw, b, s, hc, h1, h2, h3⟩ := hrun
+  have hrun' := ackRun_of_check _ _ _ hc
+  have hq : (⟨.idle, 7, [.ready .accepted, .pending]⟩ : AckB.Poller) ∈ s.pollers := by rw [h2]; simp
+  exact ⟨b0, b, s, _, ack_reach_run hr, hw, hrun', h1, hq, rfl, h3,
+    (C12_layerB_ready_accepted_implies_effect (ack_reach_run hr) hw (by simp) ⟨[], rfl⟩ rfl hrun' h1 hq
+      (by simp)).2.2⟩
+
+/-! ### the interface theorem: the effect stays in place -/
+
+/-- an executable check of `LRun` -/
+def lRunCheck (D : BState → Act → Bool) (b : BState) : List (Act × Oracle) → Option BState
+  | [] => some b
+  | (a, o) :: rest =>
+    match stepB b a o with
+    | .ok (b', _) => if D b a then none else lRunCheck D b' rest
+    | .error _ => none
+
+theorem LRun.trans {D : BState → Act → Bool} {b b1 b2 : BState} (h1 : LRun D b b1) (h2 : LRun D b1 b2) : LRun D b b2 := by
+  induction h2 with
+  | refl => exact h1
+  | step _ hs hd ih => exact .step ih hs hd
+
+theorem lRun_of_check {D : BState → Act → Bool} : ∀ (l : List (Act × Oracle)) (b b' : BState),
+    lRunCheck D b l = some b' → LRun D b b' := by
+  intro l
+  induction l with
+  | nil =>
+    intro b b' h
+    simp only [lRunCheck, Option.some.injEq] at h
+    subst h
+    exact .refl _
+  | cons x l ih =>
+    intro b b' h
+    obtain ⟨a, o⟩ := x
+    simp only [lRunCheck] at h
+    split at h
+    · rename_i b1 o1 hs
+      split at h
+      · cases h
+      · rename_i hd
+        exact (LRun.step (.refl _) hs (by simpa using hd)).trans (ih _ _ h)
+    · cases h
+
+/-- after the answer: `put(2)` of client 1 is sent, taken and stored, client 0 reads key 1, the sweeper ticks, the clock
+    moves — none of it aimed at key 1 / id 1 -/
+def ackAfter : List (Act × Oracle) :=
+  workerN 5 ++ call 1 (.putW 2 200 4 none) 4 ++ workerN 6 ++
+  [(.issue 0 (.get 1), noO), (.client 0, noO), (.client 0, noO), (.client 0, { pool := [0] }),
+   (.sweeper none, noO), (.sweeper none, noO), (.advance 9, noO)]
+
+/-- the hypotheses of `C12_layerB_answered_accepted_implies_effect` are satisfiable: from the take of `put(1)`, through
+    the whole command and a good deal of traffic afterwards, the cell holds `Accepted` and the effect is still in place -/
+theorem C12_layerB_answered_accepted_witness :
+    ∃ b0 b, Reach cfgEx 0 [1, 2, 3, 4] 2 b0 ∧ b0.w = cmdFirstPos (.put 1 1 3 1 100) 0 ∧
+      LRun (cmdDisturbs (.put 1 1 3 1 100) 0) b0 b ∧ b.g.shutting = false ∧ b.g.acks[0]? = some .accepted ∧
+      b.g.acks.length = 2 ∧ b.g.now = 9 ∧ CmdEffect (.put 1 1 3 1 100) 0 b := by
+  have hrun : ∃ b0, runB b0Ex (call 0 (.putW 1 100 3 none) 4 ++ workerN 1) = .ok b0 ∧
+      b0.w = cmdFirstPos (.put 1 1 3 1 100) 0 ∧
+      ∃ b, lRunCheck (cmdDisturbs (.put 1 1 3 1 100) 0) b0 ackAfter = some b ∧ b.g.shutting = false ∧
+        b.g.acks[0]? = some .accepted ∧ b.g.acks.length = 2 ∧ b.g.now = 9 :=
+    ⟨_, rfl, rfl, _, rfl, rfl, by decide, by decide, rfl⟩
+  obtain ⟨b0, hr, hw, b, hc, h1, h2, h3, h4⟩ := hrun
+  have hl := lRun_of_check _ _ _ hc
+  exact ⟨b0, b, ack_reach_run hr, hw, hl, h1, h2, h3, h4,
+    C12_layerB_answered_accepted_implies_effect (ack_reach_run hr) hw (by simp) hl h1 h2⟩
+
+/-- … and the hypothesis "no action aimed at the key / the key id" cannot be dropped: after the same put, `delete(1)` of
+    client 1 (its `delete.mark` is aimed at key 1) — the cell still holds `Accepted`, the entry is soft-deleted -/
+example :
+    (match runB b0Ex (call 0 (.putW 1 100 3 none) 4 ++ workerN 6 ++ call 1 (.delete 1) 1) with
+     | .ok b =>
+       (match stepB b (.client 1) noO with
+        | .ok (b', _) =>
+          cmdDisturbs (.put 1 1 3 1 100) 0 b (.client 1) &&
+          decide (b'.g.acks[0]? = some .accepted ∧ b'.g.store.get? 1 = some ⟨100, 1, none, true⟩)
+        | _ => false)
+     | _ => false) = true := by decide
 
 end B
 end Cached
